@@ -114,7 +114,7 @@ variables
   \* ---- user ----
   initialStep = TRUE, hi = 1, raised = "",
   \* ---- history (never read by the algorithm) ----
-  recSteps = [n \in Nodes |-> <<>>], recMsgs = [x \in Conns |-> <<>>], execd = [n \in Nodes |-> <<>>], episode = 0;
+  recSteps = [n \in Nodes |-> <<>>], recMsgs = [x \in Conns |-> <<>>], execd = [n \in Nodes |-> <<>>], episode = 0, skipCnt = 0;
 
 define {
   HasAllTsMax(n) == \A i \in 1..Len(BInsSeq(n)) : qtsmax[BInsSeq(n)[i]] # <<>>
@@ -144,14 +144,19 @@ pst1:     fut[fobs] := "set"; fobs := newobs;                      \* point: _f_
           if (~mustReset) {
 pst2:       await fut[fact] # "pending";                            \* point: _f_act.result()
             qact := Tail(qact);
-            if (fut[fact] = "cancelled") { mustReset := TRUE; skippedStep := TRUE }
+            if (fut[fact] = "cancelled") { mustReset := TRUE; skippedStep := TRUE; skipCnt := skipCnt + 1 }
             else { execd[self] := Append(execd[self], k) };         \* the user ran (or overrode) the supervisor's step
-          } else { skippedStep := TRUE };
+          } else { skippedStep := TRUE; skipCnt := skipCnt + 1 };
         } else {
           execd[self] := Append(execd[self], k);                    \* node.step runs exactly here
         };
 pst3:   \* outputs: only when not skipped and RUNNING (state read folded into this segment)
-        recSteps[self] := Append(recSteps[self], [tick |-> k, start |-> st[2], end |-> st[3], sched |-> st[4], tsmax |-> st[5], psb |-> st[6], eps |-> neps[self]]);
+        \* record: a skipped supervisor tick is kept only if it is the first one after executed ticks, or if nothing but skipped
+        \* ticks was recorded so far (rex: push_step, "Only append the final step we are stopping/resetting")
+        if (~skippedStep \/ recSteps[self] = <<>> \/ Last(recSteps[self]).out = "none" \/ skipCnt = 1) {
+          recSteps[self] := Append(recSteps[self], [tick |-> k, start |-> st[2], end |-> st[3], sched |-> st[4], tsmax |-> st[5], psb |-> st[6], eps |-> neps[self],
+                                                    out |-> IF ~skippedStep THEN "val" ELSE IF recSteps[self] = <<>> \/ Last(recSteps[self]).out = "none" THEN "none" ELSE "nonetree"]);
+        };
         oi := 1;
         if (~skippedStep /\ nstate[self] = "RUNNING") {
 pst4h:    while (oi <= Len(NodeC(self).outs)) {
@@ -384,7 +389,7 @@ ua1:  \* _synchronizer.reset(); every node._reset() (and its connections): all w
       qmsgs := [x \in Conns |-> <<>>]; qexpsel := [x \in Conns |-> <<>>]; qexptm := [x \in Conns |-> <<>>]; qtsmax := [x \in Conns |-> <<>>];
       qgrouped := [x \in Conns |-> <<>>];
       cstate := [x \in Conns |-> "READY"];
-      recSteps := [n \in Nodes |-> <<>>]; recMsgs := [x \in Conns |-> <<>>]; execd := [n \in Nodes |-> <<>>];
+      recSteps := [n \in Nodes |-> <<>>]; recMsgs := [x \in Conns |-> <<>>]; execd := [n \in Nodes |-> <<>>]; skipCnt := 0;
       ni := 1;
 ua2h: while (ni <= Len(Cfg.order)) {
 ua2:    nstate[Cfg.order[ni]] := "STARTING";                                         \* point (lock) per node: _startup: flip + submit _starting
@@ -484,22 +489,23 @@ cw0:  while (TRUE) {
       };
 }
 } *)
-\* BEGIN TRANSLATION (chksum(pcal) = "bbf1932c" /\ chksum(tla) = "febda8eb")
+\* BEGIN TRANSLATION (chksum(pcal) = "9851518" /\ chksum(tla) = "b14a1fa1")
 \* Procedure variable k of procedure PushStep at line 131 col 24 changed to k_
 \* Procedure variable oi of procedure PushStep at line 131 col 74 changed to oi_
-\* Procedure variable sc of procedure PushPhase at line 174 col 21 changed to sc_
-\* Procedure variable ii of procedure PushPhase at line 174 col 88 changed to ii_
-\* Procedure variable ii of procedure PushSched at line 212 col 27 changed to ii_P
-\* Procedure variable cnt of procedure PushSelection at line 250 col 13 changed to cnt_
-\* Procedure variable cnt of procedure PushTsMax at line 265 col 13 changed to cnt_P
-\* Procedure variable cnt of procedure ExpNonblocking at line 287 col 21 changed to cnt_E
-\* Procedure variable ni of procedure Stop at line 344 col 13 changed to ni_
+\* Procedure variable sc of procedure PushPhase at line 179 col 21 changed to sc_
+\* Procedure variable ii of procedure PushPhase at line 179 col 88 changed to ii_
+\* Procedure variable ii of procedure PushSched at line 217 col 27 changed to ii_P
+\* Procedure variable cnt of procedure PushSelection at line 255 col 13 changed to cnt_
+\* Procedure variable cnt of procedure PushTsMax at line 270 col 13 changed to cnt_P
+\* Procedure variable cnt of procedure ExpNonblocking at line 292 col 21 changed to cnt_E
+\* Procedure variable ni of procedure Stop at line 349 col 13 changed to ni_
 CONSTANT defaultInitValue
 VARIABLES pc, nstate, exq, neps, tick, psched, qtick, qsched, qendprev, 
           qstart, sidx, stopFut, startFut, cstate, cexq, ctick, prevrecv, 
           midx, qnext, qtsin, qzipd, qzipm, qmsgs, qexpsel, qexptm, qtsmax, 
           qgrouped, cstopFut, fut, nf, qact, qobs, fobs, mustReset, 
-          initialStep, hi, raised, recSteps, recMsgs, execd, episode, stack
+          initialStep, hi, raised, recSteps, recMsgs, execd, episode, skipCnt, 
+          stack
 
 (* define statement *)
 HasAllTsMax(n) == \A i \in 1..Len(BInsSeq(n)) : qtsmax[BInsSeq(n)[i]] # <<>>
@@ -514,11 +520,11 @@ vars == << pc, nstate, exq, neps, tick, psched, qtick, qsched, qendprev,
            qstart, sidx, stopFut, startFut, cstate, cexq, ctick, prevrecv, 
            midx, qnext, qtsin, qzipd, qzipm, qmsgs, qexpsel, qexptm, qtsmax, 
            qgrouped, cstopFut, fut, nf, qact, qobs, fobs, mustReset, 
-           initialStep, hi, raised, recSteps, recMsgs, execd, episode, stack, 
-           st, k_, fact, newobs, skippedStep, oi_, tm, sc_, ep, phase, tstart, 
-           tend, d, oi, ii_, psb, k, s, ii_P, ii, cnt_, g, cnt_P, ts, cnt_E, 
-           N, cnt, sc, tseq, tts, teps, recv, iseq, its, ieps, ni_, cf, ni, 
-           ci, fo, rf, task, ctask >>
+           initialStep, hi, raised, recSteps, recMsgs, execd, episode, 
+           skipCnt, stack, st, k_, fact, newobs, skippedStep, oi_, tm, sc_, 
+           ep, phase, tstart, tend, d, oi, ii_, psb, k, s, ii_P, ii, cnt_, g, 
+           cnt_P, ts, cnt_E, N, cnt, sc, tseq, tts, teps, recv, iseq, its, 
+           ieps, ni_, cf, ni, ci, fo, rf, task, ctask >>
 
 ProcSet == {"user"} \cup (Nodes) \cup (Conns)
 
@@ -563,6 +569,7 @@ Init == (* Global variables *)
         /\ recMsgs = [x \in Conns |-> <<>>]
         /\ execd = [n \in Nodes |-> <<>>]
         /\ episode = 0
+        /\ skipCnt = 0
         (* Procedure PushStep *)
         /\ st = [ self \in ProcSet |-> <<>>]
         /\ k_ = [ self \in ProcSet |-> 0]
@@ -655,14 +662,19 @@ pst0(self) == /\ pc[self] = "pst0"
                               ctick, prevrecv, midx, qnext, qtsin, qzipd, 
                               qzipm, qmsgs, qexpsel, qexptm, qtsmax, cstopFut, 
                               fobs, mustReset, initialStep, hi, raised, 
-                              recSteps, recMsgs, episode, stack, skippedStep, 
-                              oi_, tm, sc_, ep, phase, tstart, tend, d, oi, 
-                              ii_, psb, k, s, ii_P, ii, cnt_, g, cnt_P, ts, 
-                              cnt_E, N, cnt, sc, tseq, tts, teps, recv, iseq, 
-                              its, ieps, ni_, cf, ni, ci, fo, rf, task, ctask >>
+                              recSteps, recMsgs, episode, skipCnt, stack, 
+                              skippedStep, oi_, tm, sc_, ep, phase, tstart, 
+                              tend, d, oi, ii_, psb, k, s, ii_P, ii, cnt_, g, 
+                              cnt_P, ts, cnt_E, N, cnt, sc, tseq, tts, teps, 
+                              recv, iseq, its, ieps, ni_, cf, ni, ci, fo, rf, 
+                              task, ctask >>
 
 pst3(self) == /\ pc[self] = "pst3"
-              /\ recSteps' = [recSteps EXCEPT ![self] = Append(recSteps[self], [tick |-> k_[self], start |-> st[self][2], end |-> st[self][3], sched |-> st[self][4], tsmax |-> st[self][5], psb |-> st[self][6], eps |-> neps[self]])]
+              /\ IF ~skippedStep[self] \/ recSteps[self] = <<>> \/ Last(recSteps[self]).out = "none" \/ skipCnt = 1
+                    THEN /\ recSteps' = [recSteps EXCEPT ![self] = Append(recSteps[self], [tick |-> k_[self], start |-> st[self][2], end |-> st[self][3], sched |-> st[self][4], tsmax |-> st[self][5], psb |-> st[self][6], eps |-> neps[self],
+                                                                                           out |-> IF ~skippedStep[self] THEN "val" ELSE IF recSteps[self] = <<>> \/ Last(recSteps[self]).out = "none" THEN "none" ELSE "nonetree"])]
+                    ELSE /\ TRUE
+                         /\ UNCHANGED recSteps
               /\ oi_' = [oi_ EXCEPT ![self] = 1]
               /\ IF ~skippedStep[self] /\ nstate[self] = "RUNNING"
                     THEN /\ pc' = [pc EXCEPT ![self] = "pst4h"]
@@ -673,12 +685,12 @@ pst3(self) == /\ pc[self] = "pst3"
                               qtsin, qzipd, qzipm, qmsgs, qexpsel, qexptm, 
                               qtsmax, qgrouped, cstopFut, fut, nf, qact, qobs, 
                               fobs, mustReset, initialStep, hi, raised, 
-                              recMsgs, execd, episode, stack, st, k_, fact, 
-                              newobs, skippedStep, tm, sc_, ep, phase, tstart, 
-                              tend, d, oi, ii_, psb, k, s, ii_P, ii, cnt_, g, 
-                              cnt_P, ts, cnt_E, N, cnt, sc, tseq, tts, teps, 
-                              recv, iseq, its, ieps, ni_, cf, ni, ci, fo, rf, 
-                              task, ctask >>
+                              recMsgs, execd, episode, skipCnt, stack, st, k_, 
+                              fact, newobs, skippedStep, tm, sc_, ep, phase, 
+                              tstart, tend, d, oi, ii_, psb, k, s, ii_P, ii, 
+                              cnt_, g, cnt_P, ts, cnt_E, N, cnt, sc, tseq, tts, 
+                              teps, recv, iseq, its, ieps, ni_, cf, ni, ci, fo, 
+                              rf, task, ctask >>
 
 pst4h(self) == /\ pc[self] = "pst4h"
                /\ IF oi_[self] <= Len(NodeC(self).outs)
@@ -690,12 +702,12 @@ pst4h(self) == /\ pc[self] = "pst4h"
                                qtsin, qzipd, qzipm, qmsgs, qexpsel, qexptm, 
                                qtsmax, qgrouped, cstopFut, fut, nf, qact, qobs, 
                                fobs, mustReset, initialStep, hi, raised, 
-                               recSteps, recMsgs, execd, episode, stack, st, 
-                               k_, fact, newobs, skippedStep, oi_, tm, sc_, ep, 
-                               phase, tstart, tend, d, oi, ii_, psb, k, s, 
-                               ii_P, ii, cnt_, g, cnt_P, ts, cnt_E, N, cnt, sc, 
-                               tseq, tts, teps, recv, iseq, its, ieps, ni_, cf, 
-                               ni, ci, fo, rf, task, ctask >>
+                               recSteps, recMsgs, execd, episode, skipCnt, 
+                               stack, st, k_, fact, newobs, skippedStep, oi_, 
+                               tm, sc_, ep, phase, tstart, tend, d, oi, ii_, 
+                               psb, k, s, ii_P, ii, cnt_, g, cnt_P, ts, cnt_E, 
+                               N, cnt, sc, tseq, tts, teps, recv, iseq, its, 
+                               ieps, ni_, cf, ni, ci, fo, rf, task, ctask >>
 
 pst4(self) == /\ pc[self] = "pst4"
               /\ IF ConnAllowed(cstate[(NodeC(self).outs[oi_[self]])]) \/ FALSE
@@ -710,12 +722,12 @@ pst4(self) == /\ pc[self] = "pst4"
                               qzipd, qzipm, qmsgs, qexpsel, qexptm, qtsmax, 
                               qgrouped, cstopFut, fut, nf, qact, qobs, fobs, 
                               mustReset, initialStep, hi, raised, recSteps, 
-                              recMsgs, execd, episode, stack, st, k_, fact, 
-                              newobs, skippedStep, tm, sc_, ep, phase, tstart, 
-                              tend, d, oi, ii_, psb, k, s, ii_P, ii, cnt_, g, 
-                              cnt_P, ts, cnt_E, N, cnt, sc, tseq, tts, teps, 
-                              recv, iseq, its, ieps, ni_, cf, ni, ci, fo, rf, 
-                              task, ctask >>
+                              recMsgs, execd, episode, skipCnt, stack, st, k_, 
+                              fact, newobs, skippedStep, tm, sc_, ep, phase, 
+                              tstart, tend, d, oi, ii_, psb, k, s, ii_P, ii, 
+                              cnt_, g, cnt_P, ts, cnt_E, N, cnt, sc, tseq, tts, 
+                              teps, recv, iseq, its, ieps, ni_, cf, ni, ci, fo, 
+                              rf, task, ctask >>
 
 pst5(self) == /\ pc[self] = "pst5"
               /\ IF nstate[self] = "RUNNING"
@@ -729,12 +741,12 @@ pst5(self) == /\ pc[self] = "pst5"
                               qtsin, qzipd, qzipm, qmsgs, qexpsel, qexptm, 
                               qtsmax, qgrouped, cstopFut, fut, nf, qact, qobs, 
                               fobs, mustReset, initialStep, hi, raised, 
-                              recSteps, recMsgs, execd, episode, stack, st, k_, 
-                              fact, newobs, skippedStep, oi_, tm, sc_, ep, 
-                              phase, tstart, tend, d, oi, ii_, psb, k, s, ii_P, 
-                              ii, cnt_, g, cnt_P, ts, cnt_E, N, cnt, sc, tseq, 
-                              tts, teps, recv, iseq, its, ieps, ni_, cf, ni, 
-                              ci, fo, rf, task, ctask >>
+                              recSteps, recMsgs, execd, episode, skipCnt, 
+                              stack, st, k_, fact, newobs, skippedStep, oi_, 
+                              tm, sc_, ep, phase, tstart, tend, d, oi, ii_, 
+                              psb, k, s, ii_P, ii, cnt_, g, cnt_P, ts, cnt_E, 
+                              N, cnt, sc, tseq, tts, teps, recv, iseq, its, 
+                              ieps, ni_, cf, ni, ci, fo, rf, task, ctask >>
 
 pst6(self) == /\ pc[self] = "pst6"
               /\ IF NodeAllowed(nstate[self]) \/ FALSE
@@ -748,20 +760,21 @@ pst6(self) == /\ pc[self] = "pst6"
                               qtsin, qzipd, qzipm, qmsgs, qexpsel, qexptm, 
                               qtsmax, qgrouped, cstopFut, fut, nf, qact, qobs, 
                               fobs, mustReset, initialStep, hi, raised, 
-                              recSteps, recMsgs, execd, episode, stack, st, k_, 
-                              fact, newobs, skippedStep, oi_, tm, sc_, ep, 
-                              phase, tstart, tend, d, oi, ii_, psb, k, s, ii_P, 
-                              ii, cnt_, g, cnt_P, ts, cnt_E, N, cnt, sc, tseq, 
-                              tts, teps, recv, iseq, its, ieps, ni_, cf, ni, 
-                              ci, fo, rf, task, ctask >>
+                              recSteps, recMsgs, execd, episode, skipCnt, 
+                              stack, st, k_, fact, newobs, skippedStep, oi_, 
+                              tm, sc_, ep, phase, tstart, tend, d, oi, ii_, 
+                              psb, k, s, ii_P, ii, cnt_, g, cnt_P, ts, cnt_E, 
+                              N, cnt, sc, tseq, tts, teps, recv, iseq, its, 
+                              ieps, ni_, cf, ni, ci, fo, rf, task, ctask >>
 
 pst1(self) == /\ pc[self] = "pst1"
               /\ fut' = [fut EXCEPT ![fobs] = "set"]
               /\ fobs' = newobs[self]
               /\ IF ~mustReset
                     THEN /\ pc' = [pc EXCEPT ![self] = "pst2"]
-                         /\ UNCHANGED skippedStep
+                         /\ UNCHANGED << skipCnt, skippedStep >>
                     ELSE /\ skippedStep' = [skippedStep EXCEPT ![self] = TRUE]
+                         /\ skipCnt' = skipCnt + 1
                          /\ pc' = [pc EXCEPT ![self] = "pst3"]
               /\ UNCHANGED << nstate, exq, neps, tick, psched, qtick, qsched, 
                               qendprev, qstart, sidx, stopFut, startFut, 
@@ -781,9 +794,10 @@ pst2(self) == /\ pc[self] = "pst2"
               /\ IF fut[fact[self]] = "cancelled"
                     THEN /\ mustReset' = TRUE
                          /\ skippedStep' = [skippedStep EXCEPT ![self] = TRUE]
+                         /\ skipCnt' = skipCnt + 1
                          /\ execd' = execd
                     ELSE /\ execd' = [execd EXCEPT ![self] = Append(execd[self], k_[self])]
-                         /\ UNCHANGED << mustReset, skippedStep >>
+                         /\ UNCHANGED << mustReset, skipCnt, skippedStep >>
               /\ pc' = [pc EXCEPT ![self] = "pst3"]
               /\ UNCHANGED << nstate, exq, neps, tick, psched, qtick, qsched, 
                               qendprev, qstart, sidx, stopFut, startFut, 
@@ -812,11 +826,11 @@ pst9(self) == /\ pc[self] = "pst9"
                               qtsin, qzipd, qzipm, qmsgs, qexpsel, qexptm, 
                               qtsmax, qgrouped, cstopFut, fut, nf, qact, qobs, 
                               fobs, mustReset, initialStep, hi, raised, 
-                              recSteps, recMsgs, execd, episode, tm, sc_, ep, 
-                              phase, tstart, tend, d, oi, ii_, psb, k, s, ii_P, 
-                              ii, cnt_, g, cnt_P, ts, cnt_E, N, cnt, sc, tseq, 
-                              tts, teps, recv, iseq, its, ieps, ni_, cf, ni, 
-                              ci, fo, rf, task, ctask >>
+                              recSteps, recMsgs, execd, episode, skipCnt, tm, 
+                              sc_, ep, phase, tstart, tend, d, oi, ii_, psb, k, 
+                              s, ii_P, ii, cnt_, g, cnt_P, ts, cnt_E, N, cnt, 
+                              sc, tseq, tts, teps, recv, iseq, its, ieps, ni_, 
+                              cf, ni, ci, fo, rf, task, ctask >>
 
 PushStep(self) == pst0(self) \/ pst3(self) \/ pst4h(self) \/ pst4(self)
                      \/ pst5(self) \/ pst6(self) \/ pst1(self)
@@ -853,10 +867,11 @@ pp0(self) == /\ pc[self] = "pp0"
                              qzipd, qzipm, qmsgs, qexpsel, qexptm, qgrouped, 
                              cstopFut, fut, nf, qact, qobs, fobs, mustReset, 
                              initialStep, hi, raised, recSteps, recMsgs, execd, 
-                             episode, stack, st, k_, fact, newobs, skippedStep, 
-                             oi_, ii_, k, s, ii_P, ii, cnt_, g, cnt_P, ts, 
-                             cnt_E, N, cnt, sc, tseq, tts, teps, recv, iseq, 
-                             its, ieps, ni_, cf, ni, ci, fo, rf, task, ctask >>
+                             episode, skipCnt, stack, st, k_, fact, newobs, 
+                             skippedStep, oi_, ii_, k, s, ii_P, ii, cnt_, g, 
+                             cnt_P, ts, cnt_E, N, cnt, sc, tseq, tts, teps, 
+                             recv, iseq, its, ieps, ni_, cf, ni, ci, fo, rf, 
+                             task, ctask >>
 
 pp2(self) == /\ pc[self] = "pp2"
              /\ IF NodeAllowed(nstate[self]) \/ FALSE
@@ -870,11 +885,12 @@ pp2(self) == /\ pc[self] = "pp2"
                              qzipm, qmsgs, qexpsel, qexptm, qtsmax, qgrouped, 
                              cstopFut, fut, nf, qact, qobs, fobs, mustReset, 
                              initialStep, hi, raised, recSteps, recMsgs, execd, 
-                             episode, stack, st, k_, fact, newobs, skippedStep, 
-                             oi_, tm, sc_, ep, phase, tstart, tend, d, oi, ii_, 
-                             psb, k, s, ii_P, ii, cnt_, g, cnt_P, ts, cnt_E, N, 
-                             cnt, sc, tseq, tts, teps, recv, iseq, its, ieps, 
-                             ni_, cf, ni, ci, fo, rf, task, ctask >>
+                             episode, skipCnt, stack, st, k_, fact, newobs, 
+                             skippedStep, oi_, tm, sc_, ep, phase, tstart, 
+                             tend, d, oi, ii_, psb, k, s, ii_P, ii, cnt_, g, 
+                             cnt_P, ts, cnt_E, N, cnt, sc, tseq, tts, teps, 
+                             recv, iseq, its, ieps, ni_, cf, ni, ci, fo, rf, 
+                             task, ctask >>
 
 pp3(self) == /\ pc[self] = "pp3"
              /\ stack' = [stack EXCEPT ![self] = << [ procedure |->  "PushStep",
@@ -899,10 +915,11 @@ pp3(self) == /\ pc[self] = "pp3"
                              qzipm, qmsgs, qexpsel, qexptm, qtsmax, qgrouped, 
                              cstopFut, fut, nf, qact, qobs, fobs, mustReset, 
                              initialStep, hi, raised, recSteps, recMsgs, execd, 
-                             episode, tm, sc_, ep, phase, tstart, tend, d, oi, 
-                             ii_, psb, k, s, ii_P, ii, cnt_, g, cnt_P, ts, 
-                             cnt_E, N, cnt, sc, tseq, tts, teps, recv, iseq, 
-                             its, ieps, ni_, cf, ni, ci, fo, rf, task, ctask >>
+                             episode, skipCnt, tm, sc_, ep, phase, tstart, 
+                             tend, d, oi, ii_, psb, k, s, ii_P, ii, cnt_, g, 
+                             cnt_P, ts, cnt_E, N, cnt, sc, tseq, tts, teps, 
+                             recv, iseq, its, ieps, ni_, cf, ni, ci, fo, rf, 
+                             task, ctask >>
 
 pp4(self) == /\ pc[self] = "pp4"
              /\ ii_' = [ii_ EXCEPT ![self] = 1]
@@ -913,11 +930,12 @@ pp4(self) == /\ pc[self] = "pp4"
                              qzipm, qmsgs, qexpsel, qexptm, qtsmax, qgrouped, 
                              cstopFut, fut, nf, qact, qobs, fobs, mustReset, 
                              initialStep, hi, raised, recSteps, recMsgs, execd, 
-                             episode, stack, st, k_, fact, newobs, skippedStep, 
-                             oi_, tm, sc_, ep, phase, tstart, tend, d, oi, psb, 
-                             k, s, ii_P, ii, cnt_, g, cnt_P, ts, cnt_E, N, cnt, 
-                             sc, tseq, tts, teps, recv, iseq, its, ieps, ni_, 
-                             cf, ni, ci, fo, rf, task, ctask >>
+                             episode, skipCnt, stack, st, k_, fact, newobs, 
+                             skippedStep, oi_, tm, sc_, ep, phase, tstart, 
+                             tend, d, oi, psb, k, s, ii_P, ii, cnt_, g, cnt_P, 
+                             ts, cnt_E, N, cnt, sc, tseq, tts, teps, recv, 
+                             iseq, its, ieps, ni_, cf, ni, ci, fo, rf, task, 
+                             ctask >>
 
 pp5(self) == /\ pc[self] = "pp5"
              /\ IF ii_[self] <= Len(NBInsSeq(self))
@@ -931,11 +949,12 @@ pp5(self) == /\ pc[self] = "pp5"
                              qmsgs, qexpsel, qexptm, qtsmax, qgrouped, 
                              cstopFut, fut, nf, qact, qobs, fobs, mustReset, 
                              initialStep, hi, raised, recSteps, recMsgs, execd, 
-                             episode, stack, st, k_, fact, newobs, skippedStep, 
-                             oi_, tm, sc_, ep, phase, tstart, tend, d, oi, ii_, 
-                             psb, k, s, ii_P, ii, cnt_, g, cnt_P, ts, cnt_E, N, 
-                             cnt, sc, tseq, tts, teps, recv, iseq, its, ieps, 
-                             ni_, cf, ni, ci, fo, rf, task, ctask >>
+                             episode, skipCnt, stack, st, k_, fact, newobs, 
+                             skippedStep, oi_, tm, sc_, ep, phase, tstart, 
+                             tend, d, oi, ii_, psb, k, s, ii_P, ii, cnt_, g, 
+                             cnt_P, ts, cnt_E, N, cnt, sc, tseq, tts, teps, 
+                             recv, iseq, its, ieps, ni_, cf, ni, ci, fo, rf, 
+                             task, ctask >>
 
 pp6(self) == /\ pc[self] = "pp6"
              /\ IF ConnAllowed(cstate[(NBInsSeq(self)[ii_[self]])]) \/ FALSE
@@ -950,11 +969,12 @@ pp6(self) == /\ pc[self] = "pp6"
                              qmsgs, qexpsel, qexptm, qtsmax, qgrouped, 
                              cstopFut, fut, nf, qact, qobs, fobs, mustReset, 
                              initialStep, hi, raised, recSteps, recMsgs, execd, 
-                             episode, stack, st, k_, fact, newobs, skippedStep, 
-                             oi_, tm, sc_, ep, phase, tstart, tend, d, oi, psb, 
-                             k, s, ii_P, ii, cnt_, g, cnt_P, ts, cnt_E, N, cnt, 
-                             sc, tseq, tts, teps, recv, iseq, its, ieps, ni_, 
-                             cf, ni, ci, fo, rf, task, ctask >>
+                             episode, skipCnt, stack, st, k_, fact, newobs, 
+                             skippedStep, oi_, tm, sc_, ep, phase, tstart, 
+                             tend, d, oi, psb, k, s, ii_P, ii, cnt_, g, cnt_P, 
+                             ts, cnt_E, N, cnt, sc, tseq, tts, teps, recv, 
+                             iseq, its, ieps, ni_, cf, ni, ci, fo, rf, task, 
+                             ctask >>
 
 pp1h(self) == /\ pc[self] = "pp1h"
               /\ IF oi[self] <= Len(NodeC(self).outs)
@@ -966,12 +986,12 @@ pp1h(self) == /\ pc[self] = "pp1h"
                               qtsin, qzipd, qzipm, qmsgs, qexpsel, qexptm, 
                               qtsmax, qgrouped, cstopFut, fut, nf, qact, qobs, 
                               fobs, mustReset, initialStep, hi, raised, 
-                              recSteps, recMsgs, execd, episode, stack, st, k_, 
-                              fact, newobs, skippedStep, oi_, tm, sc_, ep, 
-                              phase, tstart, tend, d, oi, ii_, psb, k, s, ii_P, 
-                              ii, cnt_, g, cnt_P, ts, cnt_E, N, cnt, sc, tseq, 
-                              tts, teps, recv, iseq, its, ieps, ni_, cf, ni, 
-                              ci, fo, rf, task, ctask >>
+                              recSteps, recMsgs, execd, episode, skipCnt, 
+                              stack, st, k_, fact, newobs, skippedStep, oi_, 
+                              tm, sc_, ep, phase, tstart, tend, d, oi, ii_, 
+                              psb, k, s, ii_P, ii, cnt_, g, cnt_P, ts, cnt_E, 
+                              N, cnt, sc, tseq, tts, teps, recv, iseq, its, 
+                              ieps, ni_, cf, ni, ci, fo, rf, task, ctask >>
 
 pp1(self) == /\ pc[self] = "pp1"
              /\ IF ConnAllowed(cstate[(NodeC(self).outs[oi[self]])]) \/ FALSE
@@ -986,11 +1006,12 @@ pp1(self) == /\ pc[self] = "pp1"
                              qmsgs, qexpsel, qexptm, qtsmax, qgrouped, 
                              cstopFut, fut, nf, qact, qobs, fobs, mustReset, 
                              initialStep, hi, raised, recSteps, recMsgs, execd, 
-                             episode, stack, st, k_, fact, newobs, skippedStep, 
-                             oi_, tm, sc_, ep, phase, tstart, tend, d, ii_, 
-                             psb, k, s, ii_P, ii, cnt_, g, cnt_P, ts, cnt_E, N, 
-                             cnt, sc, tseq, tts, teps, recv, iseq, its, ieps, 
-                             ni_, cf, ni, ci, fo, rf, task, ctask >>
+                             episode, skipCnt, stack, st, k_, fact, newobs, 
+                             skippedStep, oi_, tm, sc_, ep, phase, tstart, 
+                             tend, d, ii_, psb, k, s, ii_P, ii, cnt_, g, cnt_P, 
+                             ts, cnt_E, N, cnt, sc, tseq, tts, teps, recv, 
+                             iseq, its, ieps, ni_, cf, ni, ci, fo, rf, task, 
+                             ctask >>
 
 pp9(self) == /\ pc[self] = "pp9"
              /\ pc' = [pc EXCEPT ![self] = Head(stack[self]).pc]
@@ -1011,10 +1032,11 @@ pp9(self) == /\ pc[self] = "pp9"
                              qzipm, qmsgs, qexpsel, qexptm, qtsmax, qgrouped, 
                              cstopFut, fut, nf, qact, qobs, fobs, mustReset, 
                              initialStep, hi, raised, recSteps, recMsgs, execd, 
-                             episode, st, k_, fact, newobs, skippedStep, oi_, 
-                             k, s, ii_P, ii, cnt_, g, cnt_P, ts, cnt_E, N, cnt, 
-                             sc, tseq, tts, teps, recv, iseq, its, ieps, ni_, 
-                             cf, ni, ci, fo, rf, task, ctask >>
+                             episode, skipCnt, st, k_, fact, newobs, 
+                             skippedStep, oi_, k, s, ii_P, ii, cnt_, g, cnt_P, 
+                             ts, cnt_E, N, cnt, sc, tseq, tts, teps, recv, 
+                             iseq, its, ieps, ni_, cf, ni, ci, fo, rf, task, 
+                             ctask >>
 
 PushPhase(self) == pp0(self) \/ pp2(self) \/ pp3(self) \/ pp4(self)
                       \/ pp5(self) \/ pp6(self) \/ pp1h(self) \/ pp1(self)
@@ -1060,11 +1082,11 @@ ps0(self) == /\ pc[self] = "ps0"
                              midx, qnext, qtsin, qzipd, qzipm, qmsgs, qexpsel, 
                              qexptm, qtsmax, qgrouped, cstopFut, fut, nf, qact, 
                              qobs, fobs, mustReset, initialStep, hi, raised, 
-                             recSteps, recMsgs, execd, episode, st, k_, fact, 
-                             newobs, skippedStep, oi_, ii_P, ii, cnt_, g, 
-                             cnt_P, ts, cnt_E, N, cnt, sc, tseq, tts, teps, 
-                             recv, iseq, its, ieps, ni_, cf, ni, ci, fo, rf, 
-                             task, ctask >>
+                             recSteps, recMsgs, execd, episode, skipCnt, st, 
+                             k_, fact, newobs, skippedStep, oi_, ii_P, ii, 
+                             cnt_, g, cnt_P, ts, cnt_E, N, cnt, sc, tseq, tts, 
+                             teps, recv, iseq, its, ieps, ni_, cf, ni, ci, fo, 
+                             rf, task, ctask >>
 
 ps1(self) == /\ pc[self] = "ps1"
              /\ ii_P' = [ii_P EXCEPT ![self] = 1]
@@ -1075,11 +1097,12 @@ ps1(self) == /\ pc[self] = "ps1"
                              qzipm, qmsgs, qexpsel, qexptm, qtsmax, qgrouped, 
                              cstopFut, fut, nf, qact, qobs, fobs, mustReset, 
                              initialStep, hi, raised, recSteps, recMsgs, execd, 
-                             episode, stack, st, k_, fact, newobs, skippedStep, 
-                             oi_, tm, sc_, ep, phase, tstart, tend, d, oi, ii_, 
-                             psb, k, s, ii, cnt_, g, cnt_P, ts, cnt_E, N, cnt, 
-                             sc, tseq, tts, teps, recv, iseq, its, ieps, ni_, 
-                             cf, ni, ci, fo, rf, task, ctask >>
+                             episode, skipCnt, stack, st, k_, fact, newobs, 
+                             skippedStep, oi_, tm, sc_, ep, phase, tstart, 
+                             tend, d, oi, ii_, psb, k, s, ii, cnt_, g, cnt_P, 
+                             ts, cnt_E, N, cnt, sc, tseq, tts, teps, recv, 
+                             iseq, its, ieps, ni_, cf, ni, ci, fo, rf, task, 
+                             ctask >>
 
 ps2(self) == /\ pc[self] = "ps2"
              /\ IF ii_P[self] <= Len(BInsSeq(self))
@@ -1093,11 +1116,12 @@ ps2(self) == /\ pc[self] = "ps2"
                              qmsgs, qexpsel, qexptm, qtsmax, qgrouped, 
                              cstopFut, fut, nf, qact, qobs, fobs, mustReset, 
                              initialStep, hi, raised, recSteps, recMsgs, execd, 
-                             episode, stack, st, k_, fact, newobs, skippedStep, 
-                             oi_, tm, sc_, ep, phase, tstart, tend, d, oi, ii_, 
-                             psb, k, s, ii_P, ii, cnt_, g, cnt_P, ts, cnt_E, N, 
-                             cnt, sc, tseq, tts, teps, recv, iseq, its, ieps, 
-                             ni_, cf, ni, ci, fo, rf, task, ctask >>
+                             episode, skipCnt, stack, st, k_, fact, newobs, 
+                             skippedStep, oi_, tm, sc_, ep, phase, tstart, 
+                             tend, d, oi, ii_, psb, k, s, ii_P, ii, cnt_, g, 
+                             cnt_P, ts, cnt_E, N, cnt, sc, tseq, tts, teps, 
+                             recv, iseq, its, ieps, ni_, cf, ni, ci, fo, rf, 
+                             task, ctask >>
 
 ps3(self) == /\ pc[self] = "ps3"
              /\ IF ConnAllowed(cstate[(BInsSeq(self)[ii_P[self]])]) \/ FALSE
@@ -1112,11 +1136,12 @@ ps3(self) == /\ pc[self] = "ps3"
                              qmsgs, qexpsel, qexptm, qtsmax, qgrouped, 
                              cstopFut, fut, nf, qact, qobs, fobs, mustReset, 
                              initialStep, hi, raised, recSteps, recMsgs, execd, 
-                             episode, stack, st, k_, fact, newobs, skippedStep, 
-                             oi_, tm, sc_, ep, phase, tstart, tend, d, oi, ii_, 
-                             psb, k, s, ii, cnt_, g, cnt_P, ts, cnt_E, N, cnt, 
-                             sc, tseq, tts, teps, recv, iseq, its, ieps, ni_, 
-                             cf, ni, ci, fo, rf, task, ctask >>
+                             episode, skipCnt, stack, st, k_, fact, newobs, 
+                             skippedStep, oi_, tm, sc_, ep, phase, tstart, 
+                             tend, d, oi, ii_, psb, k, s, ii, cnt_, g, cnt_P, 
+                             ts, cnt_E, N, cnt, sc, tseq, tts, teps, recv, 
+                             iseq, its, ieps, ni_, cf, ni, ci, fo, rf, task, 
+                             ctask >>
 
 ps9(self) == /\ pc[self] = "ps9"
              /\ pc' = [pc EXCEPT ![self] = Head(stack[self]).pc]
@@ -1130,11 +1155,11 @@ ps9(self) == /\ pc[self] = "ps9"
                              qzipm, qmsgs, qexpsel, qexptm, qtsmax, qgrouped, 
                              cstopFut, fut, nf, qact, qobs, fobs, mustReset, 
                              initialStep, hi, raised, recSteps, recMsgs, execd, 
-                             episode, st, k_, fact, newobs, skippedStep, oi_, 
-                             tm, sc_, ep, phase, tstart, tend, d, oi, ii_, psb, 
-                             ii, cnt_, g, cnt_P, ts, cnt_E, N, cnt, sc, tseq, 
-                             tts, teps, recv, iseq, its, ieps, ni_, cf, ni, ci, 
-                             fo, rf, task, ctask >>
+                             episode, skipCnt, st, k_, fact, newobs, 
+                             skippedStep, oi_, tm, sc_, ep, phase, tstart, 
+                             tend, d, oi, ii_, psb, ii, cnt_, g, cnt_P, ts, 
+                             cnt_E, N, cnt, sc, tseq, tts, teps, recv, iseq, 
+                             its, ieps, ni_, cf, ni, ci, fo, rf, task, ctask >>
 
 PushSched(self) == ps0(self) \/ ps1(self) \/ ps2(self) \/ ps3(self)
                       \/ ps9(self)
@@ -1149,11 +1174,12 @@ ns0(self) == /\ pc[self] = "ns0"
                              qzipm, qmsgs, qexpsel, qexptm, qtsmax, qgrouped, 
                              cstopFut, fut, nf, qact, qobs, fobs, mustReset, 
                              initialStep, hi, raised, recSteps, recMsgs, execd, 
-                             episode, stack, st, k_, fact, newobs, skippedStep, 
-                             oi_, tm, sc_, ep, phase, tstart, tend, d, oi, ii_, 
-                             psb, k, s, ii_P, ii, cnt_, g, cnt_P, ts, cnt_E, N, 
-                             cnt, sc, tseq, tts, teps, recv, iseq, its, ieps, 
-                             ni_, cf, ni, ci, fo, rf, task, ctask >>
+                             episode, skipCnt, stack, st, k_, fact, newobs, 
+                             skippedStep, oi_, tm, sc_, ep, phase, tstart, 
+                             tend, d, oi, ii_, psb, k, s, ii_P, ii, cnt_, g, 
+                             cnt_P, ts, cnt_E, N, cnt, sc, tseq, tts, teps, 
+                             recv, iseq, its, ieps, ni_, cf, ni, ci, fo, rf, 
+                             task, ctask >>
 
 ns1(self) == /\ pc[self] = "ns1"
              /\ cstate' = [cstate EXCEPT ![NodeC(self).ins[ii[self]]] = "STOPPING"]
@@ -1165,12 +1191,12 @@ ns1(self) == /\ pc[self] = "ns1"
                              prevrecv, midx, qnext, qtsin, qzipd, qzipm, qmsgs, 
                              qexpsel, qexptm, qtsmax, qgrouped, fut, nf, qact, 
                              qobs, fobs, mustReset, initialStep, hi, raised, 
-                             recSteps, recMsgs, execd, episode, stack, st, k_, 
-                             fact, newobs, skippedStep, oi_, tm, sc_, ep, 
-                             phase, tstart, tend, d, oi, ii_, psb, k, s, ii_P, 
-                             ii, cnt_, g, cnt_P, ts, cnt_E, N, cnt, sc, tseq, 
-                             tts, teps, recv, iseq, its, ieps, ni_, cf, ni, ci, 
-                             fo, rf, task, ctask >>
+                             recSteps, recMsgs, execd, episode, skipCnt, stack, 
+                             st, k_, fact, newobs, skippedStep, oi_, tm, sc_, 
+                             ep, phase, tstart, tend, d, oi, ii_, psb, k, s, 
+                             ii_P, ii, cnt_, g, cnt_P, ts, cnt_E, N, cnt, sc, 
+                             tseq, tts, teps, recv, iseq, its, ieps, ni_, cf, 
+                             ni, ci, fo, rf, task, ctask >>
 
 ns2(self) == /\ pc[self] = "ns2"
              /\ cstopFut[NodeC(self).ins[ii[self]]] = "done"
@@ -1182,11 +1208,12 @@ ns2(self) == /\ pc[self] = "ns2"
                              qzipm, qmsgs, qexpsel, qexptm, qtsmax, qgrouped, 
                              cstopFut, fut, nf, qact, qobs, fobs, mustReset, 
                              initialStep, hi, raised, recSteps, recMsgs, execd, 
-                             episode, stack, st, k_, fact, newobs, skippedStep, 
-                             oi_, tm, sc_, ep, phase, tstart, tend, d, oi, ii_, 
-                             psb, k, s, ii_P, cnt_, g, cnt_P, ts, cnt_E, N, 
-                             cnt, sc, tseq, tts, teps, recv, iseq, its, ieps, 
-                             ni_, cf, ni, ci, fo, rf, task, ctask >>
+                             episode, skipCnt, stack, st, k_, fact, newobs, 
+                             skippedStep, oi_, tm, sc_, ep, phase, tstart, 
+                             tend, d, oi, ii_, psb, k, s, ii_P, cnt_, g, cnt_P, 
+                             ts, cnt_E, N, cnt, sc, tseq, tts, teps, recv, 
+                             iseq, its, ieps, ni_, cf, ni, ci, fo, rf, task, 
+                             ctask >>
 
 ns3(self) == /\ pc[self] = "ns3"
              /\ nstate' = [nstate EXCEPT ![self] = "STOPPED"]
@@ -1199,12 +1226,12 @@ ns3(self) == /\ pc[self] = "ns3"
                              prevrecv, midx, qnext, qtsin, qzipd, qzipm, qmsgs, 
                              qexpsel, qexptm, qtsmax, qgrouped, cstopFut, fut, 
                              nf, qact, qobs, fobs, mustReset, initialStep, hi, 
-                             raised, recSteps, recMsgs, execd, episode, st, k_, 
-                             fact, newobs, skippedStep, oi_, tm, sc_, ep, 
-                             phase, tstart, tend, d, oi, ii_, psb, k, s, ii_P, 
-                             cnt_, g, cnt_P, ts, cnt_E, N, cnt, sc, tseq, tts, 
-                             teps, recv, iseq, its, ieps, ni_, cf, ni, ci, fo, 
-                             rf, task, ctask >>
+                             raised, recSteps, recMsgs, execd, episode, 
+                             skipCnt, st, k_, fact, newobs, skippedStep, oi_, 
+                             tm, sc_, ep, phase, tstart, tend, d, oi, ii_, psb, 
+                             k, s, ii_P, cnt_, g, cnt_P, ts, cnt_E, N, cnt, sc, 
+                             tseq, tts, teps, recv, iseq, its, ieps, ni_, cf, 
+                             ni, ci, fo, rf, task, ctask >>
 
 NodeStopping(self) == ns0(self) \/ ns1(self) \/ ns2(self) \/ ns3(self)
 
@@ -1226,12 +1253,12 @@ sel0(self) == /\ pc[self] = "sel0"
                               cstate, cexq, prevrecv, midx, qnext, qtsin, 
                               qzipd, qzipm, qexptm, qtsmax, cstopFut, fut, nf, 
                               qact, qobs, fobs, mustReset, initialStep, hi, 
-                              raised, recSteps, execd, episode, stack, st, k_, 
-                              fact, newobs, skippedStep, oi_, tm, sc_, ep, 
-                              phase, tstart, tend, d, oi, ii_, psb, k, s, ii_P, 
-                              ii, cnt_P, ts, cnt_E, N, cnt, sc, tseq, tts, 
-                              teps, recv, iseq, its, ieps, ni_, cf, ni, ci, fo, 
-                              rf, task, ctask >>
+                              raised, recSteps, execd, episode, skipCnt, stack, 
+                              st, k_, fact, newobs, skippedStep, oi_, tm, sc_, 
+                              ep, phase, tstart, tend, d, oi, ii_, psb, k, s, 
+                              ii_P, ii, cnt_P, ts, cnt_E, N, cnt, sc, tseq, 
+                              tts, teps, recv, iseq, its, ieps, ni_, cf, ni, 
+                              ci, fo, rf, task, ctask >>
 
 sel1(self) == /\ pc[self] = "sel1"
               /\ IF NodeAllowed(nstate[(ConnC(self).dst)]) \/ FALSE
@@ -1245,12 +1272,12 @@ sel1(self) == /\ pc[self] = "sel1"
                               qtsin, qzipd, qzipm, qmsgs, qexpsel, qexptm, 
                               qtsmax, qgrouped, cstopFut, fut, nf, qact, qobs, 
                               fobs, mustReset, initialStep, hi, raised, 
-                              recSteps, recMsgs, execd, episode, stack, st, k_, 
-                              fact, newobs, skippedStep, oi_, tm, sc_, ep, 
-                              phase, tstart, tend, d, oi, ii_, psb, k, s, ii_P, 
-                              ii, cnt_, g, cnt_P, ts, cnt_E, N, cnt, sc, tseq, 
-                              tts, teps, recv, iseq, its, ieps, ni_, cf, ni, 
-                              ci, fo, rf, task, ctask >>
+                              recSteps, recMsgs, execd, episode, skipCnt, 
+                              stack, st, k_, fact, newobs, skippedStep, oi_, 
+                              tm, sc_, ep, phase, tstart, tend, d, oi, ii_, 
+                              psb, k, s, ii_P, ii, cnt_, g, cnt_P, ts, cnt_E, 
+                              N, cnt, sc, tseq, tts, teps, recv, iseq, its, 
+                              ieps, ni_, cf, ni, ci, fo, rf, task, ctask >>
 
 sel9(self) == /\ pc[self] = "sel9"
               /\ pc' = [pc EXCEPT ![self] = Head(stack[self]).pc]
@@ -1263,12 +1290,12 @@ sel9(self) == /\ pc[self] = "sel9"
                               qtsin, qzipd, qzipm, qmsgs, qexpsel, qexptm, 
                               qtsmax, qgrouped, cstopFut, fut, nf, qact, qobs, 
                               fobs, mustReset, initialStep, hi, raised, 
-                              recSteps, recMsgs, execd, episode, st, k_, fact, 
-                              newobs, skippedStep, oi_, tm, sc_, ep, phase, 
-                              tstart, tend, d, oi, ii_, psb, k, s, ii_P, ii, 
-                              cnt_P, ts, cnt_E, N, cnt, sc, tseq, tts, teps, 
-                              recv, iseq, its, ieps, ni_, cf, ni, ci, fo, rf, 
-                              task, ctask >>
+                              recSteps, recMsgs, execd, episode, skipCnt, st, 
+                              k_, fact, newobs, skippedStep, oi_, tm, sc_, ep, 
+                              phase, tstart, tend, d, oi, ii_, psb, k, s, ii_P, 
+                              ii, cnt_P, ts, cnt_E, N, cnt, sc, tseq, tts, 
+                              teps, recv, iseq, its, ieps, ni_, cf, ni, ci, fo, 
+                              rf, task, ctask >>
 
 PushSelection(self) == sel0(self) \/ sel1(self) \/ sel9(self)
 
@@ -1286,12 +1313,12 @@ tm0(self) == /\ pc[self] = "tm0"
                              cexq, ctick, prevrecv, midx, qnext, qzipd, qzipm, 
                              qmsgs, qexpsel, qgrouped, cstopFut, fut, nf, qact, 
                              qobs, fobs, mustReset, initialStep, hi, raised, 
-                             recSteps, recMsgs, execd, episode, stack, st, k_, 
-                             fact, newobs, skippedStep, oi_, tm, sc_, ep, 
-                             phase, tstart, tend, d, oi, ii_, psb, k, s, ii_P, 
-                             ii, cnt_, g, ts, cnt_E, N, cnt, sc, tseq, tts, 
-                             teps, recv, iseq, its, ieps, ni_, cf, ni, ci, fo, 
-                             rf, task, ctask >>
+                             recSteps, recMsgs, execd, episode, skipCnt, stack, 
+                             st, k_, fact, newobs, skippedStep, oi_, tm, sc_, 
+                             ep, phase, tstart, tend, d, oi, ii_, psb, k, s, 
+                             ii_P, ii, cnt_, g, ts, cnt_E, N, cnt, sc, tseq, 
+                             tts, teps, recv, iseq, its, ieps, ni_, cf, ni, ci, 
+                             fo, rf, task, ctask >>
 
 tm1(self) == /\ pc[self] = "tm1"
              /\ IF NodeAllowed(nstate[(ConnC(self).dst)]) \/ FALSE
@@ -1305,11 +1332,12 @@ tm1(self) == /\ pc[self] = "tm1"
                              qzipm, qmsgs, qexpsel, qexptm, qtsmax, qgrouped, 
                              cstopFut, fut, nf, qact, qobs, fobs, mustReset, 
                              initialStep, hi, raised, recSteps, recMsgs, execd, 
-                             episode, stack, st, k_, fact, newobs, skippedStep, 
-                             oi_, tm, sc_, ep, phase, tstart, tend, d, oi, ii_, 
-                             psb, k, s, ii_P, ii, cnt_, g, cnt_P, ts, cnt_E, N, 
-                             cnt, sc, tseq, tts, teps, recv, iseq, its, ieps, 
-                             ni_, cf, ni, ci, fo, rf, task, ctask >>
+                             episode, skipCnt, stack, st, k_, fact, newobs, 
+                             skippedStep, oi_, tm, sc_, ep, phase, tstart, 
+                             tend, d, oi, ii_, psb, k, s, ii_P, ii, cnt_, g, 
+                             cnt_P, ts, cnt_E, N, cnt, sc, tseq, tts, teps, 
+                             recv, iseq, its, ieps, ni_, cf, ni, ci, fo, rf, 
+                             task, ctask >>
 
 tm9(self) == /\ pc[self] = "tm9"
              /\ pc' = [pc EXCEPT ![self] = Head(stack[self]).pc]
@@ -1321,11 +1349,12 @@ tm9(self) == /\ pc[self] = "tm9"
                              qzipm, qmsgs, qexpsel, qexptm, qtsmax, qgrouped, 
                              cstopFut, fut, nf, qact, qobs, fobs, mustReset, 
                              initialStep, hi, raised, recSteps, recMsgs, execd, 
-                             episode, st, k_, fact, newobs, skippedStep, oi_, 
-                             tm, sc_, ep, phase, tstart, tend, d, oi, ii_, psb, 
-                             k, s, ii_P, ii, cnt_, g, ts, cnt_E, N, cnt, sc, 
-                             tseq, tts, teps, recv, iseq, its, ieps, ni_, cf, 
-                             ni, ci, fo, rf, task, ctask >>
+                             episode, skipCnt, st, k_, fact, newobs, 
+                             skippedStep, oi_, tm, sc_, ep, phase, tstart, 
+                             tend, d, oi, ii_, psb, k, s, ii_P, ii, cnt_, g, 
+                             ts, cnt_E, N, cnt, sc, tseq, tts, teps, recv, 
+                             iseq, its, ieps, ni_, cf, ni, ci, fo, rf, task, 
+                             ctask >>
 
 PushTsMax(self) == tm0(self) \/ tm1(self) \/ tm9(self)
 
@@ -1349,12 +1378,12 @@ zp0(self) == /\ pc[self] = "zp0"
                              cexq, ctick, prevrecv, midx, qnext, qtsin, 
                              qexpsel, qexptm, qtsmax, qgrouped, cstopFut, fut, 
                              nf, qact, qobs, fobs, mustReset, initialStep, hi, 
-                             raised, recSteps, recMsgs, execd, episode, st, k_, 
-                             fact, newobs, skippedStep, oi_, tm, sc_, ep, 
-                             phase, tstart, tend, d, oi, ii_, psb, k, s, ii_P, 
-                             ii, cnt_P, ts, cnt_E, N, cnt, sc, tseq, tts, teps, 
-                             recv, iseq, its, ieps, ni_, cf, ni, ci, fo, rf, 
-                             task, ctask >>
+                             raised, recSteps, recMsgs, execd, episode, 
+                             skipCnt, st, k_, fact, newobs, skippedStep, oi_, 
+                             tm, sc_, ep, phase, tstart, tend, d, oi, ii_, psb, 
+                             k, s, ii_P, ii, cnt_P, ts, cnt_E, N, cnt, sc, 
+                             tseq, tts, teps, recv, iseq, its, ieps, ni_, cf, 
+                             ni, ci, fo, rf, task, ctask >>
 
 zp9(self) == /\ pc[self] = "zp9"
              /\ pc' = [pc EXCEPT ![self] = Head(stack[self]).pc]
@@ -1365,11 +1394,12 @@ zp9(self) == /\ pc[self] = "zp9"
                              qzipm, qmsgs, qexpsel, qexptm, qtsmax, qgrouped, 
                              cstopFut, fut, nf, qact, qobs, fobs, mustReset, 
                              initialStep, hi, raised, recSteps, recMsgs, execd, 
-                             episode, st, k_, fact, newobs, skippedStep, oi_, 
-                             tm, sc_, ep, phase, tstart, tend, d, oi, ii_, psb, 
-                             k, s, ii_P, ii, cnt_, g, cnt_P, ts, cnt_E, N, cnt, 
-                             sc, tseq, tts, teps, recv, iseq, its, ieps, ni_, 
-                             cf, ni, ci, fo, rf, task, ctask >>
+                             episode, skipCnt, st, k_, fact, newobs, 
+                             skippedStep, oi_, tm, sc_, ep, phase, tstart, 
+                             tend, d, oi, ii_, psb, k, s, ii_P, ii, cnt_, g, 
+                             cnt_P, ts, cnt_E, N, cnt, sc, tseq, tts, teps, 
+                             recv, iseq, its, ieps, ni_, cf, ni, ci, fo, rf, 
+                             task, ctask >>
 
 PushZip(self) == zp0(self) \/ zp9(self)
 
@@ -1400,11 +1430,12 @@ en0(self) == /\ pc[self] = "en0"
                              cexq, ctick, prevrecv, midx, qzipd, qzipm, qmsgs, 
                              qexptm, qtsmax, qgrouped, cstopFut, fut, nf, qact, 
                              qobs, fobs, mustReset, initialStep, hi, raised, 
-                             recSteps, recMsgs, execd, episode, st, k_, fact, 
-                             newobs, skippedStep, oi_, tm, sc_, ep, phase, 
-                             tstart, tend, d, oi, ii_, psb, k, s, ii_P, ii, 
-                             cnt_P, N, cnt, sc, tseq, tts, teps, recv, iseq, 
-                             its, ieps, ni_, cf, ni, ci, fo, rf, task, ctask >>
+                             recSteps, recMsgs, execd, episode, skipCnt, st, 
+                             k_, fact, newobs, skippedStep, oi_, tm, sc_, ep, 
+                             phase, tstart, tend, d, oi, ii_, psb, k, s, ii_P, 
+                             ii, cnt_P, N, cnt, sc, tseq, tts, teps, recv, 
+                             iseq, its, ieps, ni_, cf, ni, ci, fo, rf, task, 
+                             ctask >>
 
 en9(self) == /\ pc[self] = "en9"
              /\ pc' = [pc EXCEPT ![self] = Head(stack[self]).pc]
@@ -1417,11 +1448,11 @@ en9(self) == /\ pc[self] = "en9"
                              qzipm, qmsgs, qexpsel, qexptm, qtsmax, qgrouped, 
                              cstopFut, fut, nf, qact, qobs, fobs, mustReset, 
                              initialStep, hi, raised, recSteps, recMsgs, execd, 
-                             episode, st, k_, fact, newobs, skippedStep, oi_, 
-                             tm, sc_, ep, phase, tstart, tend, d, oi, ii_, psb, 
-                             k, s, ii_P, ii, cnt_, g, cnt_P, N, cnt, sc, tseq, 
-                             tts, teps, recv, iseq, its, ieps, ni_, cf, ni, ci, 
-                             fo, rf, task, ctask >>
+                             episode, skipCnt, st, k_, fact, newobs, 
+                             skippedStep, oi_, tm, sc_, ep, phase, tstart, 
+                             tend, d, oi, ii_, psb, k, s, ii_P, ii, cnt_, g, 
+                             cnt_P, N, cnt, sc, tseq, tts, teps, recv, iseq, 
+                             its, ieps, ni_, cf, ni, ci, fo, rf, task, ctask >>
 
 ExpNonblocking(self) == en0(self) \/ en9(self)
 
@@ -1446,12 +1477,12 @@ eb0(self) == /\ pc[self] = "eb0"
                              cexq, ctick, prevrecv, midx, qtsin, qzipd, qzipm, 
                              qmsgs, qexpsel, qtsmax, qgrouped, cstopFut, fut, 
                              nf, qact, qobs, fobs, mustReset, initialStep, hi, 
-                             raised, recSteps, recMsgs, execd, episode, st, k_, 
-                             fact, newobs, skippedStep, oi_, tm, sc_, ep, 
-                             phase, tstart, tend, d, oi, ii_, psb, k, s, ii_P, 
-                             ii, cnt_, g, ts, cnt_E, tseq, tts, teps, recv, 
-                             iseq, its, ieps, ni_, cf, ni, ci, fo, rf, task, 
-                             ctask >>
+                             raised, recSteps, recMsgs, execd, episode, 
+                             skipCnt, st, k_, fact, newobs, skippedStep, oi_, 
+                             tm, sc_, ep, phase, tstart, tend, d, oi, ii_, psb, 
+                             k, s, ii_P, ii, cnt_, g, ts, cnt_E, tseq, tts, 
+                             teps, recv, iseq, its, ieps, ni_, cf, ni, ci, fo, 
+                             rf, task, ctask >>
 
 eb1(self) == /\ pc[self] = "eb1"
              /\ qexpsel' = [qexpsel EXCEPT ![self] = Append(qexpsel[self], <<sc[self], cnt[self]>>)]
@@ -1468,12 +1499,12 @@ eb1(self) == /\ pc[self] = "eb1"
                              cexq, ctick, prevrecv, midx, qnext, qtsin, qzipd, 
                              qzipm, qmsgs, qexptm, qtsmax, qgrouped, cstopFut, 
                              fut, nf, qact, qobs, fobs, mustReset, initialStep, 
-                             hi, raised, recSteps, recMsgs, execd, episode, st, 
-                             k_, fact, newobs, skippedStep, oi_, tm, sc_, ep, 
-                             phase, tstart, tend, d, oi, ii_, psb, k, s, ii_P, 
-                             ii, cnt_P, ts, cnt_E, N, cnt, sc, tseq, tts, teps, 
-                             recv, iseq, its, ieps, ni_, cf, ni, ci, fo, rf, 
-                             task, ctask >>
+                             hi, raised, recSteps, recMsgs, execd, episode, 
+                             skipCnt, st, k_, fact, newobs, skippedStep, oi_, 
+                             tm, sc_, ep, phase, tstart, tend, d, oi, ii_, psb, 
+                             k, s, ii_P, ii, cnt_P, ts, cnt_E, N, cnt, sc, 
+                             tseq, tts, teps, recv, iseq, its, ieps, ni_, cf, 
+                             ni, ci, fo, rf, task, ctask >>
 
 eb9(self) == /\ pc[self] = "eb9"
              /\ pc' = [pc EXCEPT ![self] = Head(stack[self]).pc]
@@ -1487,11 +1518,11 @@ eb9(self) == /\ pc[self] = "eb9"
                              qzipm, qmsgs, qexpsel, qexptm, qtsmax, qgrouped, 
                              cstopFut, fut, nf, qact, qobs, fobs, mustReset, 
                              initialStep, hi, raised, recSteps, recMsgs, execd, 
-                             episode, st, k_, fact, newobs, skippedStep, oi_, 
-                             tm, sc_, ep, phase, tstart, tend, d, oi, ii_, psb, 
-                             k, s, ii_P, ii, cnt_, g, cnt_P, ts, cnt_E, tseq, 
-                             tts, teps, recv, iseq, its, ieps, ni_, cf, ni, ci, 
-                             fo, rf, task, ctask >>
+                             episode, skipCnt, st, k_, fact, newobs, 
+                             skippedStep, oi_, tm, sc_, ep, phase, tstart, 
+                             tend, d, oi, ii_, psb, k, s, ii_P, ii, cnt_, g, 
+                             cnt_P, ts, cnt_E, tseq, tts, teps, recv, iseq, 
+                             its, ieps, ni_, cf, ni, ci, fo, rf, task, ctask >>
 
 ExpBlocking(self) == eb0(self) \/ eb1(self) \/ eb9(self)
 
@@ -1512,12 +1543,12 @@ ti0(self) == /\ pc[self] = "ti0"
                              cexq, ctick, qnext, qtsin, qzipm, qmsgs, qexpsel, 
                              qexptm, qtsmax, qgrouped, cstopFut, fut, nf, qact, 
                              qobs, fobs, mustReset, initialStep, hi, raised, 
-                             recSteps, recMsgs, execd, episode, st, k_, fact, 
-                             newobs, skippedStep, oi_, tm, sc_, ep, phase, 
-                             tstart, tend, d, oi, ii_, psb, k, s, ii_P, ii, 
-                             cnt_, g, cnt_P, ts, cnt_E, N, cnt, sc, tseq, tts, 
-                             teps, iseq, its, ieps, ni_, cf, ni, ci, fo, rf, 
-                             task, ctask >>
+                             recSteps, recMsgs, execd, episode, skipCnt, st, 
+                             k_, fact, newobs, skippedStep, oi_, tm, sc_, ep, 
+                             phase, tstart, tend, d, oi, ii_, psb, k, s, ii_P, 
+                             ii, cnt_, g, cnt_P, ts, cnt_E, N, cnt, sc, tseq, 
+                             tts, teps, iseq, its, ieps, ni_, cf, ni, ci, fo, 
+                             rf, task, ctask >>
 
 ti1(self) == /\ pc[self] = "ti1"
              /\ qtsin' = [qtsin EXCEPT ![self] = Append(qtsin[self], <<tseq[self], recv[self]>>)]
@@ -1544,11 +1575,11 @@ ti1(self) == /\ pc[self] = "ti1"
                              qmsgs, qexpsel, qexptm, qtsmax, qgrouped, 
                              cstopFut, fut, nf, qact, qobs, fobs, mustReset, 
                              initialStep, hi, raised, recSteps, recMsgs, execd, 
-                             episode, st, k_, fact, newobs, skippedStep, oi_, 
-                             tm, sc_, ep, phase, tstart, tend, d, oi, ii_, psb, 
-                             k, s, ii_P, ii, cnt_, g, N, cnt, sc, tseq, tts, 
-                             teps, recv, iseq, its, ieps, ni_, cf, ni, ci, fo, 
-                             rf, task, ctask >>
+                             episode, skipCnt, st, k_, fact, newobs, 
+                             skippedStep, oi_, tm, sc_, ep, phase, tstart, 
+                             tend, d, oi, ii_, psb, k, s, ii_P, ii, cnt_, g, N, 
+                             cnt, sc, tseq, tts, teps, recv, iseq, its, ieps, 
+                             ni_, cf, ni, ci, fo, rf, task, ctask >>
 
 ti9(self) == /\ pc[self] = "ti9"
              /\ pc' = [pc EXCEPT ![self] = Head(stack[self]).pc]
@@ -1563,11 +1594,11 @@ ti9(self) == /\ pc[self] = "ti9"
                              qzipm, qmsgs, qexpsel, qexptm, qtsmax, qgrouped, 
                              cstopFut, fut, nf, qact, qobs, fobs, mustReset, 
                              initialStep, hi, raised, recSteps, recMsgs, execd, 
-                             episode, st, k_, fact, newobs, skippedStep, oi_, 
-                             tm, sc_, ep, phase, tstart, tend, d, oi, ii_, psb, 
-                             k, s, ii_P, ii, cnt_, g, cnt_P, ts, cnt_E, N, cnt, 
-                             sc, iseq, its, ieps, ni_, cf, ni, ci, fo, rf, 
-                             task, ctask >>
+                             episode, skipCnt, st, k_, fact, newobs, 
+                             skippedStep, oi_, tm, sc_, ep, phase, tstart, 
+                             tend, d, oi, ii_, psb, k, s, ii_P, ii, cnt_, g, 
+                             cnt_P, ts, cnt_E, N, cnt, sc, iseq, its, ieps, 
+                             ni_, cf, ni, ci, fo, rf, task, ctask >>
 
 TsInput(self) == ti0(self) \/ ti1(self) \/ ti9(self)
 
@@ -1586,11 +1617,12 @@ mi0(self) == /\ pc[self] = "mi0"
                              qmsgs, qexpsel, qexptm, qtsmax, qgrouped, 
                              cstopFut, fut, nf, qact, qobs, fobs, mustReset, 
                              initialStep, hi, raised, recSteps, recMsgs, execd, 
-                             episode, st, k_, fact, newobs, skippedStep, oi_, 
-                             tm, sc_, ep, phase, tstart, tend, d, oi, ii_, psb, 
-                             k, s, ii_P, ii, cnt_, g, cnt_P, ts, cnt_E, N, cnt, 
-                             sc, tseq, tts, teps, recv, iseq, its, ieps, ni_, 
-                             cf, ni, ci, fo, rf, task, ctask >>
+                             episode, skipCnt, st, k_, fact, newobs, 
+                             skippedStep, oi_, tm, sc_, ep, phase, tstart, 
+                             tend, d, oi, ii_, psb, k, s, ii_P, ii, cnt_, g, 
+                             cnt_P, ts, cnt_E, N, cnt, sc, tseq, tts, teps, 
+                             recv, iseq, its, ieps, ni_, cf, ni, ci, fo, rf, 
+                             task, ctask >>
 
 mi9(self) == /\ pc[self] = "mi9"
              /\ pc' = [pc EXCEPT ![self] = Head(stack[self]).pc]
@@ -1604,11 +1636,11 @@ mi9(self) == /\ pc[self] = "mi9"
                              qzipm, qmsgs, qexpsel, qexptm, qtsmax, qgrouped, 
                              cstopFut, fut, nf, qact, qobs, fobs, mustReset, 
                              initialStep, hi, raised, recSteps, recMsgs, execd, 
-                             episode, st, k_, fact, newobs, skippedStep, oi_, 
-                             tm, sc_, ep, phase, tstart, tend, d, oi, ii_, psb, 
-                             k, s, ii_P, ii, cnt_, g, cnt_P, ts, cnt_E, N, cnt, 
-                             sc, tseq, tts, teps, recv, ni_, cf, ni, ci, fo, 
-                             rf, task, ctask >>
+                             episode, skipCnt, st, k_, fact, newobs, 
+                             skippedStep, oi_, tm, sc_, ep, phase, tstart, 
+                             tend, d, oi, ii_, psb, k, s, ii_P, ii, cnt_, g, 
+                             cnt_P, ts, cnt_E, N, cnt, sc, tseq, tts, teps, 
+                             recv, ni_, cf, ni, ci, fo, rf, task, ctask >>
 
 MsgInput(self) == mi0(self) \/ mi9(self)
 
@@ -1630,11 +1662,11 @@ us0(self) == /\ pc[self] = "us0"
                              qzipm, qmsgs, qexpsel, qexptm, qtsmax, qgrouped, 
                              cstopFut, fut, nf, qact, qobs, fobs, initialStep, 
                              hi, raised, recSteps, recMsgs, execd, episode, 
-                             stack, st, k_, fact, newobs, skippedStep, oi_, tm, 
-                             sc_, ep, phase, tstart, tend, d, oi, ii_, psb, k, 
-                             s, ii_P, ii, cnt_, g, cnt_P, ts, cnt_E, N, cnt, 
-                             sc, tseq, tts, teps, recv, iseq, its, ieps, ni_, 
-                             ni, ci, fo, rf, task, ctask >>
+                             skipCnt, stack, st, k_, fact, newobs, skippedStep, 
+                             oi_, tm, sc_, ep, phase, tstart, tend, d, oi, ii_, 
+                             psb, k, s, ii_P, ii, cnt_, g, cnt_P, ts, cnt_E, N, 
+                             cnt, sc, tseq, tts, teps, recv, iseq, its, ieps, 
+                             ni_, ni, ci, fo, rf, task, ctask >>
 
 us3(self) == /\ pc[self] = "us3"
              /\ ni_' = [ni_ EXCEPT ![self] = ni_[self] + 1]
@@ -1645,11 +1677,12 @@ us3(self) == /\ pc[self] = "us3"
                              qzipm, qmsgs, qexpsel, qexptm, qtsmax, qgrouped, 
                              cstopFut, fut, nf, qact, qobs, fobs, mustReset, 
                              initialStep, hi, raised, recSteps, recMsgs, execd, 
-                             episode, stack, st, k_, fact, newobs, skippedStep, 
-                             oi_, tm, sc_, ep, phase, tstart, tend, d, oi, ii_, 
-                             psb, k, s, ii_P, ii, cnt_, g, cnt_P, ts, cnt_E, N, 
-                             cnt, sc, tseq, tts, teps, recv, iseq, its, ieps, 
-                             cf, ni, ci, fo, rf, task, ctask >>
+                             episode, skipCnt, stack, st, k_, fact, newobs, 
+                             skippedStep, oi_, tm, sc_, ep, phase, tstart, 
+                             tend, d, oi, ii_, psb, k, s, ii_P, ii, cnt_, g, 
+                             cnt_P, ts, cnt_E, N, cnt, sc, tseq, tts, teps, 
+                             recv, iseq, its, ieps, cf, ni, ci, fo, rf, task, 
+                             ctask >>
 
 us1(self) == /\ pc[self] = "us1"
              /\ nstate' = [nstate EXCEPT ![Cfg.order[ni_[self]]] = "STOPPING"]
@@ -1661,12 +1694,12 @@ us1(self) == /\ pc[self] = "us1"
                              prevrecv, midx, qnext, qtsin, qzipd, qzipm, qmsgs, 
                              qexpsel, qexptm, qtsmax, qgrouped, cstopFut, fut, 
                              nf, qact, qobs, fobs, mustReset, initialStep, hi, 
-                             raised, recSteps, recMsgs, execd, episode, stack, 
-                             st, k_, fact, newobs, skippedStep, oi_, tm, sc_, 
-                             ep, phase, tstart, tend, d, oi, ii_, psb, k, s, 
-                             ii_P, ii, cnt_, g, cnt_P, ts, cnt_E, N, cnt, sc, 
-                             tseq, tts, teps, recv, iseq, its, ieps, ni_, cf, 
-                             ni, ci, fo, rf, task, ctask >>
+                             raised, recSteps, recMsgs, execd, episode, 
+                             skipCnt, stack, st, k_, fact, newobs, skippedStep, 
+                             oi_, tm, sc_, ep, phase, tstart, tend, d, oi, ii_, 
+                             psb, k, s, ii_P, ii, cnt_, g, cnt_P, ts, cnt_E, N, 
+                             cnt, sc, tseq, tts, teps, recv, iseq, its, ieps, 
+                             ni_, cf, ni, ci, fo, rf, task, ctask >>
 
 us2(self) == /\ pc[self] = "us2"
              /\ stopFut' = [stopFut EXCEPT ![Cfg.order[ni_[self]]] = "done"]
@@ -1677,11 +1710,12 @@ us2(self) == /\ pc[self] = "us2"
                              qmsgs, qexpsel, qexptm, qtsmax, qgrouped, 
                              cstopFut, fut, nf, qact, qobs, fobs, mustReset, 
                              initialStep, hi, raised, recSteps, recMsgs, execd, 
-                             episode, stack, st, k_, fact, newobs, skippedStep, 
-                             oi_, tm, sc_, ep, phase, tstart, tend, d, oi, ii_, 
-                             psb, k, s, ii_P, ii, cnt_, g, cnt_P, ts, cnt_E, N, 
-                             cnt, sc, tseq, tts, teps, recv, iseq, its, ieps, 
-                             ni_, cf, ni, ci, fo, rf, task, ctask >>
+                             episode, skipCnt, stack, st, k_, fact, newobs, 
+                             skippedStep, oi_, tm, sc_, ep, phase, tstart, 
+                             tend, d, oi, ii_, psb, k, s, ii_P, ii, cnt_, g, 
+                             cnt_P, ts, cnt_E, N, cnt, sc, tseq, tts, teps, 
+                             recv, iseq, its, ieps, ni_, cf, ni, ci, fo, rf, 
+                             task, ctask >>
 
 us4(self) == /\ pc[self] = "us4"
              /\ IF fut[cf[self]] = "pending"
@@ -1695,11 +1729,12 @@ us4(self) == /\ pc[self] = "us4"
                              qzipm, qmsgs, qexpsel, qexptm, qtsmax, qgrouped, 
                              cstopFut, nf, qact, qobs, fobs, mustReset, 
                              initialStep, hi, raised, recSteps, recMsgs, execd, 
-                             episode, stack, st, k_, fact, newobs, skippedStep, 
-                             oi_, tm, sc_, ep, phase, tstart, tend, d, oi, ii_, 
-                             psb, k, s, ii_P, ii, cnt_, g, cnt_P, ts, cnt_E, N, 
-                             cnt, sc, tseq, tts, teps, recv, iseq, its, ieps, 
-                             ni_, cf, ni, ci, fo, rf, task, ctask >>
+                             episode, skipCnt, stack, st, k_, fact, newobs, 
+                             skippedStep, oi_, tm, sc_, ep, phase, tstart, 
+                             tend, d, oi, ii_, psb, k, s, ii_P, ii, cnt_, g, 
+                             cnt_P, ts, cnt_E, N, cnt, sc, tseq, tts, teps, 
+                             recv, iseq, its, ieps, ni_, cf, ni, ci, fo, rf, 
+                             task, ctask >>
 
 us5(self) == /\ pc[self] = "us5"
              /\ ni_' = [ni_ EXCEPT ![self] = 1]
@@ -1710,11 +1745,12 @@ us5(self) == /\ pc[self] = "us5"
                              qzipm, qmsgs, qexpsel, qexptm, qtsmax, qgrouped, 
                              cstopFut, fut, nf, qact, qobs, fobs, mustReset, 
                              initialStep, hi, raised, recSteps, recMsgs, execd, 
-                             episode, stack, st, k_, fact, newobs, skippedStep, 
-                             oi_, tm, sc_, ep, phase, tstart, tend, d, oi, ii_, 
-                             psb, k, s, ii_P, ii, cnt_, g, cnt_P, ts, cnt_E, N, 
-                             cnt, sc, tseq, tts, teps, recv, iseq, its, ieps, 
-                             cf, ni, ci, fo, rf, task, ctask >>
+                             episode, skipCnt, stack, st, k_, fact, newobs, 
+                             skippedStep, oi_, tm, sc_, ep, phase, tstart, 
+                             tend, d, oi, ii_, psb, k, s, ii_P, ii, cnt_, g, 
+                             cnt_P, ts, cnt_E, N, cnt, sc, tseq, tts, teps, 
+                             recv, iseq, its, ieps, cf, ni, ci, fo, rf, task, 
+                             ctask >>
 
 us6(self) == /\ pc[self] = "us6"
              /\ IF ni_[self] <= Len(Cfg.order)
@@ -1728,11 +1764,11 @@ us6(self) == /\ pc[self] = "us6"
                              qzipm, qmsgs, qexpsel, qexptm, qtsmax, qgrouped, 
                              cstopFut, fut, nf, qact, qobs, fobs, mustReset, 
                              hi, raised, recSteps, recMsgs, execd, episode, 
-                             stack, st, k_, fact, newobs, skippedStep, oi_, tm, 
-                             sc_, ep, phase, tstart, tend, d, oi, ii_, psb, k, 
-                             s, ii_P, ii, cnt_, g, cnt_P, ts, cnt_E, N, cnt, 
-                             sc, tseq, tts, teps, recv, iseq, its, ieps, ni_, 
-                             cf, ni, ci, fo, rf, task, ctask >>
+                             skipCnt, stack, st, k_, fact, newobs, skippedStep, 
+                             oi_, tm, sc_, ep, phase, tstart, tend, d, oi, ii_, 
+                             psb, k, s, ii_P, ii, cnt_, g, cnt_P, ts, cnt_E, N, 
+                             cnt, sc, tseq, tts, teps, recv, iseq, its, ieps, 
+                             ni_, cf, ni, ci, fo, rf, task, ctask >>
 
 us7(self) == /\ pc[self] = "us7"
              /\ stopFut[Cfg.order[ni_[self]]] = "done"
@@ -1744,11 +1780,12 @@ us7(self) == /\ pc[self] = "us7"
                              qzipm, qmsgs, qexpsel, qexptm, qtsmax, qgrouped, 
                              cstopFut, fut, nf, qact, qobs, fobs, mustReset, 
                              initialStep, hi, raised, recSteps, recMsgs, execd, 
-                             episode, stack, st, k_, fact, newobs, skippedStep, 
-                             oi_, tm, sc_, ep, phase, tstart, tend, d, oi, ii_, 
-                             psb, k, s, ii_P, ii, cnt_, g, cnt_P, ts, cnt_E, N, 
-                             cnt, sc, tseq, tts, teps, recv, iseq, its, ieps, 
-                             cf, ni, ci, fo, rf, task, ctask >>
+                             episode, skipCnt, stack, st, k_, fact, newobs, 
+                             skippedStep, oi_, tm, sc_, ep, phase, tstart, 
+                             tend, d, oi, ii_, psb, k, s, ii_P, ii, cnt_, g, 
+                             cnt_P, ts, cnt_E, N, cnt, sc, tseq, tts, teps, 
+                             recv, iseq, its, ieps, cf, ni, ci, fo, rf, task, 
+                             ctask >>
 
 us9(self) == /\ pc[self] = "us9"
              /\ pc' = [pc EXCEPT ![self] = Head(stack[self]).pc]
@@ -1761,11 +1798,12 @@ us9(self) == /\ pc[self] = "us9"
                              qzipm, qmsgs, qexpsel, qexptm, qtsmax, qgrouped, 
                              cstopFut, fut, nf, qact, qobs, fobs, mustReset, 
                              initialStep, hi, raised, recSteps, recMsgs, execd, 
-                             episode, st, k_, fact, newobs, skippedStep, oi_, 
-                             tm, sc_, ep, phase, tstart, tend, d, oi, ii_, psb, 
-                             k, s, ii_P, ii, cnt_, g, cnt_P, ts, cnt_E, N, cnt, 
-                             sc, tseq, tts, teps, recv, iseq, its, ieps, ni, 
-                             ci, fo, rf, task, ctask >>
+                             episode, skipCnt, st, k_, fact, newobs, 
+                             skippedStep, oi_, tm, sc_, ep, phase, tstart, 
+                             tend, d, oi, ii_, psb, k, s, ii_P, ii, cnt_, g, 
+                             cnt_P, ts, cnt_E, N, cnt, sc, tseq, tts, teps, 
+                             recv, iseq, its, ieps, ni, ci, fo, rf, task, 
+                             ctask >>
 
 Stop(self) == us0(self) \/ us3(self) \/ us1(self) \/ us2(self) \/ us4(self)
                  \/ us5(self) \/ us6(self) \/ us7(self) \/ us9(self)
@@ -1785,11 +1823,12 @@ ua0(self) == /\ pc[self] = "ua0"
                              qzipm, qmsgs, qexpsel, qexptm, qtsmax, qgrouped, 
                              cstopFut, fut, nf, qact, qobs, fobs, mustReset, 
                              initialStep, hi, raised, recSteps, recMsgs, execd, 
-                             episode, st, k_, fact, newobs, skippedStep, oi_, 
-                             tm, sc_, ep, phase, tstart, tend, d, oi, ii_, psb, 
-                             k, s, ii_P, ii, cnt_, g, cnt_P, ts, cnt_E, N, cnt, 
-                             sc, tseq, tts, teps, recv, iseq, its, ieps, ni, 
-                             ci, fo, rf, task, ctask >>
+                             episode, skipCnt, st, k_, fact, newobs, 
+                             skippedStep, oi_, tm, sc_, ep, phase, tstart, 
+                             tend, d, oi, ii_, psb, k, s, ii_P, ii, cnt_, g, 
+                             cnt_P, ts, cnt_E, N, cnt, sc, tseq, tts, teps, 
+                             recv, iseq, its, ieps, ni, ci, fo, rf, task, 
+                             ctask >>
 
 ua1(self) == /\ pc[self] = "ua1"
              /\ episode' = episode + 1
@@ -1824,6 +1863,7 @@ ua1(self) == /\ pc[self] = "ua1"
              /\ recSteps' = [n \in Nodes |-> <<>>]
              /\ recMsgs' = [x \in Conns |-> <<>>]
              /\ execd' = [n \in Nodes |-> <<>>]
+             /\ skipCnt' = 0
              /\ ni' = [ni EXCEPT ![self] = 1]
              /\ pc' = [pc EXCEPT ![self] = "ua2h"]
              /\ UNCHANGED << exq, stopFut, startFut, cexq, cstopFut, 
@@ -1844,12 +1884,12 @@ ua2h(self) == /\ pc[self] = "ua2h"
                               qtsin, qzipd, qzipm, qmsgs, qexpsel, qexptm, 
                               qtsmax, qgrouped, cstopFut, fut, nf, qact, qobs, 
                               fobs, mustReset, initialStep, hi, raised, 
-                              recSteps, recMsgs, execd, episode, stack, st, k_, 
-                              fact, newobs, skippedStep, oi_, tm, sc_, ep, 
-                              phase, tstart, tend, d, oi, ii_, psb, k, s, ii_P, 
-                              ii, cnt_, g, cnt_P, ts, cnt_E, N, cnt, sc, tseq, 
-                              tts, teps, recv, iseq, its, ieps, ni_, cf, ni, 
-                              ci, fo, rf, task, ctask >>
+                              recSteps, recMsgs, execd, episode, skipCnt, 
+                              stack, st, k_, fact, newobs, skippedStep, oi_, 
+                              tm, sc_, ep, phase, tstart, tend, d, oi, ii_, 
+                              psb, k, s, ii_P, ii, cnt_, g, cnt_P, ts, cnt_E, 
+                              N, cnt, sc, tseq, tts, teps, recv, iseq, its, 
+                              ieps, ni_, cf, ni, ci, fo, rf, task, ctask >>
 
 ua2(self) == /\ pc[self] = "ua2"
              /\ nstate' = [nstate EXCEPT ![Cfg.order[ni[self]]] = "STARTING"]
@@ -1862,12 +1902,12 @@ ua2(self) == /\ pc[self] = "ua2"
                              prevrecv, midx, qnext, qtsin, qzipd, qzipm, qmsgs, 
                              qexpsel, qexptm, qtsmax, qgrouped, cstopFut, fut, 
                              nf, qact, qobs, fobs, mustReset, initialStep, hi, 
-                             raised, recSteps, recMsgs, execd, episode, stack, 
-                             st, k_, fact, newobs, skippedStep, oi_, tm, sc_, 
-                             ep, phase, tstart, tend, d, oi, ii_, psb, k, s, 
-                             ii_P, ii, cnt_, g, cnt_P, ts, cnt_E, N, cnt, sc, 
-                             tseq, tts, teps, recv, iseq, its, ieps, ni_, cf, 
-                             ci, fo, rf, task, ctask >>
+                             raised, recSteps, recMsgs, execd, episode, 
+                             skipCnt, stack, st, k_, fact, newobs, skippedStep, 
+                             oi_, tm, sc_, ep, phase, tstart, tend, d, oi, ii_, 
+                             psb, k, s, ii_P, ii, cnt_, g, cnt_P, ts, cnt_E, N, 
+                             cnt, sc, tseq, tts, teps, recv, iseq, its, ieps, 
+                             ni_, cf, ci, fo, rf, task, ctask >>
 
 ua3(self) == /\ pc[self] = "ua3"
              /\ ni' = [ni EXCEPT ![self] = 1]
@@ -1878,11 +1918,12 @@ ua3(self) == /\ pc[self] = "ua3"
                              qzipm, qmsgs, qexpsel, qexptm, qtsmax, qgrouped, 
                              cstopFut, fut, nf, qact, qobs, fobs, mustReset, 
                              initialStep, hi, raised, recSteps, recMsgs, execd, 
-                             episode, stack, st, k_, fact, newobs, skippedStep, 
-                             oi_, tm, sc_, ep, phase, tstart, tend, d, oi, ii_, 
-                             psb, k, s, ii_P, ii, cnt_, g, cnt_P, ts, cnt_E, N, 
-                             cnt, sc, tseq, tts, teps, recv, iseq, its, ieps, 
-                             ni_, cf, ci, fo, rf, task, ctask >>
+                             episode, skipCnt, stack, st, k_, fact, newobs, 
+                             skippedStep, oi_, tm, sc_, ep, phase, tstart, 
+                             tend, d, oi, ii_, psb, k, s, ii_P, ii, cnt_, g, 
+                             cnt_P, ts, cnt_E, N, cnt, sc, tseq, tts, teps, 
+                             recv, iseq, its, ieps, ni_, cf, ci, fo, rf, task, 
+                             ctask >>
 
 ua4(self) == /\ pc[self] = "ua4"
              /\ IF ni[self] <= Len(Cfg.order)
@@ -1894,11 +1935,12 @@ ua4(self) == /\ pc[self] = "ua4"
                              qzipm, qmsgs, qexpsel, qexptm, qtsmax, qgrouped, 
                              cstopFut, fut, nf, qact, qobs, fobs, mustReset, 
                              initialStep, hi, raised, recSteps, recMsgs, execd, 
-                             episode, stack, st, k_, fact, newobs, skippedStep, 
-                             oi_, tm, sc_, ep, phase, tstart, tend, d, oi, ii_, 
-                             psb, k, s, ii_P, ii, cnt_, g, cnt_P, ts, cnt_E, N, 
-                             cnt, sc, tseq, tts, teps, recv, iseq, its, ieps, 
-                             ni_, cf, ni, ci, fo, rf, task, ctask >>
+                             episode, skipCnt, stack, st, k_, fact, newobs, 
+                             skippedStep, oi_, tm, sc_, ep, phase, tstart, 
+                             tend, d, oi, ii_, psb, k, s, ii_P, ii, cnt_, g, 
+                             cnt_P, ts, cnt_E, N, cnt, sc, tseq, tts, teps, 
+                             recv, iseq, its, ieps, ni_, cf, ni, ci, fo, rf, 
+                             task, ctask >>
 
 ua5(self) == /\ pc[self] = "ua5"
              /\ startFut[Cfg.order[ni[self]]] = "done"
@@ -1910,11 +1952,12 @@ ua5(self) == /\ pc[self] = "ua5"
                              qzipm, qmsgs, qexpsel, qexptm, qtsmax, qgrouped, 
                              cstopFut, fut, nf, qact, qobs, fobs, mustReset, 
                              initialStep, hi, raised, recSteps, recMsgs, execd, 
-                             episode, stack, st, k_, fact, newobs, skippedStep, 
-                             oi_, tm, sc_, ep, phase, tstart, tend, d, oi, ii_, 
-                             psb, k, s, ii_P, ii, cnt_, g, cnt_P, ts, cnt_E, N, 
-                             cnt, sc, tseq, tts, teps, recv, iseq, its, ieps, 
-                             ni_, cf, ci, fo, rf, task, ctask >>
+                             episode, skipCnt, stack, st, k_, fact, newobs, 
+                             skippedStep, oi_, tm, sc_, ep, phase, tstart, 
+                             tend, d, oi, ii_, psb, k, s, ii_P, ii, cnt_, g, 
+                             cnt_P, ts, cnt_E, N, cnt, sc, tseq, tts, teps, 
+                             recv, iseq, its, ieps, ni_, cf, ci, fo, rf, task, 
+                             ctask >>
 
 ua6(self) == /\ pc[self] = "ua6"
              /\ ni' = [ni EXCEPT ![self] = 1]
@@ -1925,11 +1968,12 @@ ua6(self) == /\ pc[self] = "ua6"
                              qzipm, qmsgs, qexpsel, qexptm, qtsmax, qgrouped, 
                              cstopFut, fut, nf, qact, qobs, fobs, mustReset, 
                              initialStep, hi, raised, recSteps, recMsgs, execd, 
-                             episode, stack, st, k_, fact, newobs, skippedStep, 
-                             oi_, tm, sc_, ep, phase, tstart, tend, d, oi, ii_, 
-                             psb, k, s, ii_P, ii, cnt_, g, cnt_P, ts, cnt_E, N, 
-                             cnt, sc, tseq, tts, teps, recv, iseq, its, ieps, 
-                             ni_, cf, ci, fo, rf, task, ctask >>
+                             episode, skipCnt, stack, st, k_, fact, newobs, 
+                             skippedStep, oi_, tm, sc_, ep, phase, tstart, 
+                             tend, d, oi, ii_, psb, k, s, ii_P, ii, cnt_, g, 
+                             cnt_P, ts, cnt_E, N, cnt, sc, tseq, tts, teps, 
+                             recv, iseq, its, ieps, ni_, cf, ci, fo, rf, task, 
+                             ctask >>
 
 ua7(self) == /\ pc[self] = "ua7"
              /\ IF ni[self] <= Len(Cfg.order)
@@ -1943,11 +1987,12 @@ ua7(self) == /\ pc[self] = "ua7"
                              qmsgs, qexpsel, qexptm, qtsmax, qgrouped, 
                              cstopFut, fut, nf, qact, qobs, fobs, mustReset, 
                              initialStep, hi, raised, recSteps, recMsgs, execd, 
-                             episode, stack, st, k_, fact, newobs, skippedStep, 
-                             oi_, tm, sc_, ep, phase, tstart, tend, d, oi, ii_, 
-                             psb, k, s, ii_P, ii, cnt_, g, cnt_P, ts, cnt_E, N, 
-                             cnt, sc, tseq, tts, teps, recv, iseq, its, ieps, 
-                             ni_, cf, ni, ci, fo, rf, task, ctask >>
+                             episode, skipCnt, stack, st, k_, fact, newobs, 
+                             skippedStep, oi_, tm, sc_, ep, phase, tstart, 
+                             tend, d, oi, ii_, psb, k, s, ii_P, ii, cnt_, g, 
+                             cnt_P, ts, cnt_E, N, cnt, sc, tseq, tts, teps, 
+                             recv, iseq, its, ieps, ni_, cf, ni, ci, fo, rf, 
+                             task, ctask >>
 
 ua8(self) == /\ pc[self] = "ua8"
              /\ cstate' = [x \in Conns |-> IF x \in SeqToSet(NodeC(Cfg.order[ni[self]]).ins) THEN "RUNNING" ELSE cstate[x]]
@@ -1959,12 +2004,12 @@ ua8(self) == /\ pc[self] = "ua8"
                              midx, qnext, qtsin, qzipd, qzipm, qmsgs, qexpsel, 
                              qexptm, qtsmax, qgrouped, cstopFut, fut, nf, qact, 
                              qobs, fobs, mustReset, initialStep, hi, raised, 
-                             recSteps, recMsgs, execd, episode, stack, st, k_, 
-                             fact, newobs, skippedStep, oi_, tm, sc_, ep, 
-                             phase, tstart, tend, d, oi, ii_, psb, k, s, ii_P, 
-                             ii, cnt_, g, cnt_P, ts, cnt_E, N, cnt, sc, tseq, 
-                             tts, teps, recv, iseq, its, ieps, ni_, cf, ni, ci, 
-                             fo, rf, task, ctask >>
+                             recSteps, recMsgs, execd, episode, skipCnt, stack, 
+                             st, k_, fact, newobs, skippedStep, oi_, tm, sc_, 
+                             ep, phase, tstart, tend, d, oi, ii_, psb, k, s, 
+                             ii_P, ii, cnt_, g, cnt_P, ts, cnt_E, N, cnt, sc, 
+                             tseq, tts, teps, recv, iseq, its, ieps, ni_, cf, 
+                             ni, ci, fo, rf, task, ctask >>
 
 ua9(self) == /\ pc[self] = "ua9"
              /\ IF NodeAllowed(nstate[(Cfg.order[ni[self]])]) \/ FALSE
@@ -1979,11 +2024,12 @@ ua9(self) == /\ pc[self] = "ua9"
                              qzipm, qmsgs, qexpsel, qexptm, qtsmax, qgrouped, 
                              cstopFut, fut, nf, qact, qobs, fobs, mustReset, 
                              initialStep, hi, raised, recSteps, recMsgs, execd, 
-                             episode, stack, st, k_, fact, newobs, skippedStep, 
-                             oi_, tm, sc_, ep, phase, tstart, tend, d, oi, ii_, 
-                             psb, k, s, ii_P, ii, cnt_, g, cnt_P, ts, cnt_E, N, 
-                             cnt, sc, tseq, tts, teps, recv, iseq, its, ieps, 
-                             ni_, cf, ci, fo, rf, task, ctask >>
+                             episode, skipCnt, stack, st, k_, fact, newobs, 
+                             skippedStep, oi_, tm, sc_, ep, phase, tstart, 
+                             tend, d, oi, ii_, psb, k, s, ii_P, ii, cnt_, g, 
+                             cnt_P, ts, cnt_E, N, cnt, sc, tseq, tts, teps, 
+                             recv, iseq, its, ieps, ni_, cf, ci, fo, rf, task, 
+                             ctask >>
 
 ua10(self) == /\ pc[self] = "ua10"
               /\ pc' = [pc EXCEPT ![self] = Head(stack[self]).pc]
@@ -1996,12 +2042,12 @@ ua10(self) == /\ pc[self] = "ua10"
                               qtsin, qzipd, qzipm, qmsgs, qexpsel, qexptm, 
                               qtsmax, qgrouped, cstopFut, fut, nf, qact, qobs, 
                               fobs, mustReset, initialStep, hi, raised, 
-                              recSteps, recMsgs, execd, episode, st, k_, fact, 
-                              newobs, skippedStep, oi_, tm, sc_, ep, phase, 
-                              tstart, tend, d, oi, ii_, psb, k, s, ii_P, ii, 
-                              cnt_, g, cnt_P, ts, cnt_E, N, cnt, sc, tseq, tts, 
-                              teps, recv, iseq, its, ieps, ni_, cf, fo, rf, 
-                              task, ctask >>
+                              recSteps, recMsgs, execd, episode, skipCnt, st, 
+                              k_, fact, newobs, skippedStep, oi_, tm, sc_, ep, 
+                              phase, tstart, tend, d, oi, ii_, psb, k, s, ii_P, 
+                              ii, cnt_, g, cnt_P, ts, cnt_E, N, cnt, sc, tseq, 
+                              tts, teps, recv, iseq, its, ieps, ni_, cf, fo, 
+                              rf, task, ctask >>
 
 Start(self) == ua0(self) \/ ua1(self) \/ ua2h(self) \/ ua2(self)
                   \/ ua3(self) \/ ua4(self) \/ ua5(self) \/ ua6(self)
@@ -2017,11 +2063,12 @@ ur0(self) == /\ pc[self] = "ur0"
                              qzipm, qmsgs, qexpsel, qexptm, qtsmax, qgrouped, 
                              cstopFut, fut, nf, qact, fobs, mustReset, 
                              initialStep, hi, raised, recSteps, recMsgs, execd, 
-                             episode, stack, st, k_, fact, newobs, skippedStep, 
-                             oi_, tm, sc_, ep, phase, tstart, tend, d, oi, ii_, 
-                             psb, k, s, ii_P, ii, cnt_, g, cnt_P, ts, cnt_E, N, 
-                             cnt, sc, tseq, tts, teps, recv, iseq, its, ieps, 
-                             ni_, cf, ni, ci, rf, task, ctask >>
+                             episode, skipCnt, stack, st, k_, fact, newobs, 
+                             skippedStep, oi_, tm, sc_, ep, phase, tstart, 
+                             tend, d, oi, ii_, psb, k, s, ii_P, ii, cnt_, g, 
+                             cnt_P, ts, cnt_E, N, cnt, sc, tseq, tts, teps, 
+                             recv, iseq, its, ieps, ni_, cf, ni, ci, rf, task, 
+                             ctask >>
 
 ur1(self) == /\ pc[self] = "ur1"
              /\ fut[fo[self]] = "set"
@@ -2033,11 +2080,11 @@ ur1(self) == /\ pc[self] = "ur1"
                              qzipm, qmsgs, qexpsel, qexptm, qtsmax, qgrouped, 
                              cstopFut, fut, nf, qact, qobs, fobs, mustReset, 
                              hi, raised, recSteps, recMsgs, execd, episode, 
-                             stack, st, k_, fact, newobs, skippedStep, oi_, tm, 
-                             sc_, ep, phase, tstart, tend, d, oi, ii_, psb, k, 
-                             s, ii_P, ii, cnt_, g, cnt_P, ts, cnt_E, N, cnt, 
-                             sc, tseq, tts, teps, recv, iseq, its, ieps, ni_, 
-                             cf, ni, ci, fo, rf, task, ctask >>
+                             skipCnt, stack, st, k_, fact, newobs, skippedStep, 
+                             oi_, tm, sc_, ep, phase, tstart, tend, d, oi, ii_, 
+                             psb, k, s, ii_P, ii, cnt_, g, cnt_P, ts, cnt_E, N, 
+                             cnt, sc, tseq, tts, teps, recv, iseq, its, ieps, 
+                             ni_, cf, ni, ci, fo, rf, task, ctask >>
 
 ur9(self) == /\ pc[self] = "ur9"
              /\ pc' = [pc EXCEPT ![self] = Head(stack[self]).pc]
@@ -2049,11 +2096,12 @@ ur9(self) == /\ pc[self] = "ur9"
                              qzipm, qmsgs, qexpsel, qexptm, qtsmax, qgrouped, 
                              cstopFut, fut, nf, qact, qobs, fobs, mustReset, 
                              initialStep, hi, raised, recSteps, recMsgs, execd, 
-                             episode, st, k_, fact, newobs, skippedStep, oi_, 
-                             tm, sc_, ep, phase, tstart, tend, d, oi, ii_, psb, 
-                             k, s, ii_P, ii, cnt_, g, cnt_P, ts, cnt_E, N, cnt, 
-                             sc, tseq, tts, teps, recv, iseq, its, ieps, ni_, 
-                             cf, ni, ci, rf, task, ctask >>
+                             episode, skipCnt, st, k_, fact, newobs, 
+                             skippedStep, oi_, tm, sc_, ep, phase, tstart, 
+                             tend, d, oi, ii_, psb, k, s, ii_P, ii, cnt_, g, 
+                             cnt_P, ts, cnt_E, N, cnt, sc, tseq, tts, teps, 
+                             recv, iseq, its, ieps, ni_, cf, ni, ci, rf, task, 
+                             ctask >>
 
 RunUntilSup(self) == ur0(self) \/ ur1(self) \/ ur9(self)
 
@@ -2074,11 +2122,12 @@ ux0(self) == /\ pc[self] = "ux0"
                              qzipm, qmsgs, qexpsel, qexptm, qtsmax, qgrouped, 
                              cstopFut, fut, nf, qact, qobs, fobs, mustReset, 
                              initialStep, hi, recSteps, recMsgs, execd, 
-                             episode, stack, st, k_, fact, newobs, skippedStep, 
-                             oi_, tm, sc_, ep, phase, tstart, tend, d, oi, ii_, 
-                             psb, k, s, ii_P, ii, cnt_, g, cnt_P, ts, cnt_E, N, 
-                             cnt, sc, tseq, tts, teps, recv, iseq, its, ieps, 
-                             ni_, cf, ni, ci, fo, task, ctask >>
+                             episode, skipCnt, stack, st, k_, fact, newobs, 
+                             skippedStep, oi_, tm, sc_, ep, phase, tstart, 
+                             tend, d, oi, ii_, psb, k, s, ii_P, ii, cnt_, g, 
+                             cnt_P, ts, cnt_E, N, cnt, sc, tseq, tts, teps, 
+                             recv, iseq, its, ieps, ni_, cf, ni, ci, fo, task, 
+                             ctask >>
 
 ux1(self) == /\ pc[self] = "ux1"
              /\ IF fut[rf[self]] = "pending"
@@ -2093,11 +2142,12 @@ ux1(self) == /\ pc[self] = "ux1"
                              qzipm, qmsgs, qexpsel, qexptm, qtsmax, qgrouped, 
                              cstopFut, nf, qact, qobs, fobs, mustReset, 
                              initialStep, hi, recSteps, recMsgs, execd, 
-                             episode, stack, st, k_, fact, newobs, skippedStep, 
-                             oi_, tm, sc_, ep, phase, tstart, tend, d, oi, ii_, 
-                             psb, k, s, ii_P, ii, cnt_, g, cnt_P, ts, cnt_E, N, 
-                             cnt, sc, tseq, tts, teps, recv, iseq, its, ieps, 
-                             ni_, cf, ni, ci, fo, rf, task, ctask >>
+                             episode, skipCnt, stack, st, k_, fact, newobs, 
+                             skippedStep, oi_, tm, sc_, ep, phase, tstart, 
+                             tend, d, oi, ii_, psb, k, s, ii_P, ii, cnt_, g, 
+                             cnt_P, ts, cnt_E, N, cnt, sc, tseq, tts, teps, 
+                             recv, iseq, its, ieps, ni_, cf, ni, ci, fo, rf, 
+                             task, ctask >>
 
 ux9(self) == /\ pc[self] = "ux9"
              /\ pc' = [pc EXCEPT ![self] = Head(stack[self]).pc]
@@ -2109,11 +2159,12 @@ ux9(self) == /\ pc[self] = "ux9"
                              qzipm, qmsgs, qexpsel, qexptm, qtsmax, qgrouped, 
                              cstopFut, fut, nf, qact, qobs, fobs, mustReset, 
                              initialStep, hi, raised, recSteps, recMsgs, execd, 
-                             episode, st, k_, fact, newobs, skippedStep, oi_, 
-                             tm, sc_, ep, phase, tstart, tend, d, oi, ii_, psb, 
-                             k, s, ii_P, ii, cnt_, g, cnt_P, ts, cnt_E, N, cnt, 
-                             sc, tseq, tts, teps, recv, iseq, its, ieps, ni_, 
-                             cf, ni, ci, fo, task, ctask >>
+                             episode, skipCnt, st, k_, fact, newobs, 
+                             skippedStep, oi_, tm, sc_, ep, phase, tstart, 
+                             tend, d, oi, ii_, psb, k, s, ii_P, ii, cnt_, g, 
+                             cnt_P, ts, cnt_E, N, cnt, sc, tseq, tts, teps, 
+                             recv, iseq, its, ieps, ni_, cf, ni, ci, fo, task, 
+                             ctask >>
 
 RunSup(self) == ux0(self) \/ ux1(self) \/ ux9(self)
 
@@ -2167,11 +2218,11 @@ u0 == /\ pc["user"] = "u0"
                       prevrecv, midx, qnext, qtsin, qzipd, qzipm, qmsgs, 
                       qexpsel, qexptm, qtsmax, qgrouped, cstopFut, fut, nf, 
                       qact, qobs, fobs, mustReset, initialStep, hi, raised, 
-                      recSteps, recMsgs, execd, episode, st, k_, fact, newobs, 
-                      skippedStep, oi_, tm, sc_, ep, phase, tstart, tend, d, 
-                      oi, ii_, psb, k, s, ii_P, ii, cnt_, g, cnt_P, ts, cnt_E, 
-                      N, cnt, sc, tseq, tts, teps, recv, iseq, its, ieps, fo, 
-                      task, ctask >>
+                      recSteps, recMsgs, execd, episode, skipCnt, st, k_, fact, 
+                      newobs, skippedStep, oi_, tm, sc_, ep, phase, tstart, 
+                      tend, d, oi, ii_, psb, k, s, ii_P, ii, cnt_, g, cnt_P, 
+                      ts, cnt_E, N, cnt, sc, tseq, tts, teps, recv, iseq, its, 
+                      ieps, fo, task, ctask >>
 
 u5 == /\ pc["user"] = "u5"
       /\ hi' = hi + 1
@@ -2181,11 +2232,11 @@ u5 == /\ pc["user"] = "u5"
                       prevrecv, midx, qnext, qtsin, qzipd, qzipm, qmsgs, 
                       qexpsel, qexptm, qtsmax, qgrouped, cstopFut, fut, nf, 
                       qact, qobs, fobs, mustReset, initialStep, raised, 
-                      recSteps, recMsgs, execd, episode, stack, st, k_, fact, 
-                      newobs, skippedStep, oi_, tm, sc_, ep, phase, tstart, 
-                      tend, d, oi, ii_, psb, k, s, ii_P, ii, cnt_, g, cnt_P, 
-                      ts, cnt_E, N, cnt, sc, tseq, tts, teps, recv, iseq, its, 
-                      ieps, ni_, cf, ni, ci, fo, rf, task, ctask >>
+                      recSteps, recMsgs, execd, episode, skipCnt, stack, st, 
+                      k_, fact, newobs, skippedStep, oi_, tm, sc_, ep, phase, 
+                      tstart, tend, d, oi, ii_, psb, k, s, ii_P, ii, cnt_, g, 
+                      cnt_P, ts, cnt_E, N, cnt, sc, tseq, tts, teps, recv, 
+                      iseq, its, ieps, ni_, cf, ni, ci, fo, rf, task, ctask >>
 
 u1 == /\ pc["user"] = "u1"
       /\ stack' = [stack EXCEPT !["user"] = << [ procedure |->  "RunUntilSup",
@@ -2199,11 +2250,11 @@ u1 == /\ pc["user"] = "u1"
                       prevrecv, midx, qnext, qtsin, qzipd, qzipm, qmsgs, 
                       qexpsel, qexptm, qtsmax, qgrouped, cstopFut, fut, nf, 
                       qact, qobs, fobs, mustReset, initialStep, hi, raised, 
-                      recSteps, recMsgs, execd, episode, st, k_, fact, newobs, 
-                      skippedStep, oi_, tm, sc_, ep, phase, tstart, tend, d, 
-                      oi, ii_, psb, k, s, ii_P, ii, cnt_, g, cnt_P, ts, cnt_E, 
-                      N, cnt, sc, tseq, tts, teps, recv, iseq, its, ieps, ni_, 
-                      cf, ni, ci, rf, task, ctask >>
+                      recSteps, recMsgs, execd, episode, skipCnt, st, k_, fact, 
+                      newobs, skippedStep, oi_, tm, sc_, ep, phase, tstart, 
+                      tend, d, oi, ii_, psb, k, s, ii_P, ii, cnt_, g, cnt_P, 
+                      ts, cnt_E, N, cnt, sc, tseq, tts, teps, recv, iseq, its, 
+                      ieps, ni_, cf, ni, ci, rf, task, ctask >>
 
 u2 == /\ pc["user"] = "u2"
       /\ stack' = [stack EXCEPT !["user"] = << [ procedure |->  "RunSup",
@@ -2217,11 +2268,11 @@ u2 == /\ pc["user"] = "u2"
                       prevrecv, midx, qnext, qtsin, qzipd, qzipm, qmsgs, 
                       qexpsel, qexptm, qtsmax, qgrouped, cstopFut, fut, nf, 
                       qact, qobs, fobs, mustReset, initialStep, hi, raised, 
-                      recSteps, recMsgs, execd, episode, st, k_, fact, newobs, 
-                      skippedStep, oi_, tm, sc_, ep, phase, tstart, tend, d, 
-                      oi, ii_, psb, k, s, ii_P, ii, cnt_, g, cnt_P, ts, cnt_E, 
-                      N, cnt, sc, tseq, tts, teps, recv, iseq, its, ieps, ni_, 
-                      cf, ni, ci, fo, task, ctask >>
+                      recSteps, recMsgs, execd, episode, skipCnt, st, k_, fact, 
+                      newobs, skippedStep, oi_, tm, sc_, ep, phase, tstart, 
+                      tend, d, oi, ii_, psb, k, s, ii_P, ii, cnt_, g, cnt_P, 
+                      ts, cnt_E, N, cnt, sc, tseq, tts, teps, recv, iseq, its, 
+                      ieps, ni_, cf, ni, ci, fo, task, ctask >>
 
 u3 == /\ pc["user"] = "u3"
       /\ stack' = [stack EXCEPT !["user"] = << [ procedure |->  "RunUntilSup",
@@ -2235,11 +2286,11 @@ u3 == /\ pc["user"] = "u3"
                       prevrecv, midx, qnext, qtsin, qzipd, qzipm, qmsgs, 
                       qexpsel, qexptm, qtsmax, qgrouped, cstopFut, fut, nf, 
                       qact, qobs, fobs, mustReset, initialStep, hi, raised, 
-                      recSteps, recMsgs, execd, episode, st, k_, fact, newobs, 
-                      skippedStep, oi_, tm, sc_, ep, phase, tstart, tend, d, 
-                      oi, ii_, psb, k, s, ii_P, ii, cnt_, g, cnt_P, ts, cnt_E, 
-                      N, cnt, sc, tseq, tts, teps, recv, iseq, its, ieps, ni_, 
-                      cf, ni, ci, rf, task, ctask >>
+                      recSteps, recMsgs, execd, episode, skipCnt, st, k_, fact, 
+                      newobs, skippedStep, oi_, tm, sc_, ep, phase, tstart, 
+                      tend, d, oi, ii_, psb, k, s, ii_P, ii, cnt_, g, cnt_P, 
+                      ts, cnt_E, N, cnt, sc, tseq, tts, teps, recv, iseq, its, 
+                      ieps, ni_, cf, ni, ci, rf, task, ctask >>
 
 u4 == /\ pc["user"] = "u4"
       /\ stack' = [stack EXCEPT !["user"] = << [ procedure |->  "RunUntilSup",
@@ -2253,11 +2304,11 @@ u4 == /\ pc["user"] = "u4"
                       prevrecv, midx, qnext, qtsin, qzipd, qzipm, qmsgs, 
                       qexpsel, qexptm, qtsmax, qgrouped, cstopFut, fut, nf, 
                       qact, qobs, fobs, mustReset, initialStep, hi, raised, 
-                      recSteps, recMsgs, execd, episode, st, k_, fact, newobs, 
-                      skippedStep, oi_, tm, sc_, ep, phase, tstart, tend, d, 
-                      oi, ii_, psb, k, s, ii_P, ii, cnt_, g, cnt_P, ts, cnt_E, 
-                      N, cnt, sc, tseq, tts, teps, recv, iseq, its, ieps, ni_, 
-                      cf, ni, ci, rf, task, ctask >>
+                      recSteps, recMsgs, execd, episode, skipCnt, st, k_, fact, 
+                      newobs, skippedStep, oi_, tm, sc_, ep, phase, tstart, 
+                      tend, d, oi, ii_, psb, k, s, ii_P, ii, cnt_, g, cnt_P, 
+                      ts, cnt_E, N, cnt, sc, tseq, tts, teps, recv, iseq, its, 
+                      ieps, ni_, cf, ni, ci, rf, task, ctask >>
 
 u9 == /\ pc["user"] = "u9"
       /\ TRUE
@@ -2267,11 +2318,11 @@ u9 == /\ pc["user"] = "u9"
                       prevrecv, midx, qnext, qtsin, qzipd, qzipm, qmsgs, 
                       qexpsel, qexptm, qtsmax, qgrouped, cstopFut, fut, nf, 
                       qact, qobs, fobs, mustReset, initialStep, hi, raised, 
-                      recSteps, recMsgs, execd, episode, stack, st, k_, fact, 
-                      newobs, skippedStep, oi_, tm, sc_, ep, phase, tstart, 
-                      tend, d, oi, ii_, psb, k, s, ii_P, ii, cnt_, g, cnt_P, 
-                      ts, cnt_E, N, cnt, sc, tseq, tts, teps, recv, iseq, its, 
-                      ieps, ni_, cf, ni, ci, fo, rf, task, ctask >>
+                      recSteps, recMsgs, execd, episode, skipCnt, stack, st, 
+                      k_, fact, newobs, skippedStep, oi_, tm, sc_, ep, phase, 
+                      tstart, tend, d, oi, ii_, psb, k, s, ii_P, ii, cnt_, g, 
+                      cnt_P, ts, cnt_E, N, cnt, sc, tseq, tts, teps, recv, 
+                      iseq, its, ieps, ni_, cf, ni, ci, fo, rf, task, ctask >>
 
 U == u0 \/ u5 \/ u1 \/ u2 \/ u3 \/ u4 \/ u9
 
@@ -2365,10 +2416,10 @@ nw0(self) == /\ pc[self] = "nw0"
                              prevrecv, midx, qnext, qtsin, qzipd, qzipm, qmsgs, 
                              qexpsel, qexptm, qtsmax, qgrouped, cstopFut, fut, 
                              nf, qact, qobs, fobs, mustReset, initialStep, hi, 
-                             raised, recSteps, recMsgs, execd, episode, cnt_, 
-                             g, cnt_P, ts, cnt_E, N, cnt, sc, tseq, tts, teps, 
-                             recv, iseq, its, ieps, ni_, cf, ni, ci, fo, rf, 
-                             ctask >>
+                             raised, recSteps, recMsgs, execd, episode, 
+                             skipCnt, cnt_, g, cnt_P, ts, cnt_E, N, cnt, sc, 
+                             tseq, tts, teps, recv, iseq, its, ieps, ni_, cf, 
+                             ni, ci, fo, rf, ctask >>
 
 NW(self) == nw0(self)
 
@@ -2444,10 +2495,10 @@ cw0(self) == /\ pc[self] = "cw0"
                              prevrecv, midx, qnext, qtsin, qzipd, qzipm, qmsgs, 
                              qexpsel, qexptm, qtsmax, qgrouped, fut, nf, qact, 
                              qobs, fobs, mustReset, initialStep, hi, raised, 
-                             recSteps, recMsgs, execd, episode, st, k_, fact, 
-                             newobs, skippedStep, oi_, tm, sc_, ep, phase, 
-                             tstart, tend, d, oi, ii_, psb, k, s, ii_P, ii, 
-                             cnt_, g, cnt_P, ni_, cf, ni, ci, fo, rf, task >>
+                             recSteps, recMsgs, execd, episode, skipCnt, st, 
+                             k_, fact, newobs, skippedStep, oi_, tm, sc_, ep, 
+                             phase, tstart, tend, d, oi, ii_, psb, k, s, ii_P, 
+                             ii, cnt_, g, cnt_P, ni_, cf, ni, ci, fo, rf, task >>
 
 CW(self) == cw0(self)
 
